@@ -1,6 +1,6 @@
 """C05 - LLCP data link connections deliver in order, exactly once, within the window.
 
-Two monitors, both on two real nfc.llcp.llc.LogicalLinkController objects joined at PDU level (vf.sim.llcpair):
+Monitors, all on two real nfc.llcp.llc.LogicalLinkController objects joined at PDU level (vf.sim.llcpair):
 
 1. lock-step histories (single-threaded, deterministic): application calls on both ends
    (send(MSG_DONTWAIT), recv after poll("recv",0), poll, setsockopt(SO_RCVBSY), close) interleaved with strictly
@@ -9,34 +9,53 @@ Two monitors, both on two real nfc.llcp.llc.LogicalLinkController objects joined
    accepting end may act before the CC has left, 2 = additionally the thread inside connect() runs again only at an
    explicit step J (it "was not scheduled" for some link turns). connect()/close() block by design: their waits
    turn the link (PumpCond) or, in the early set-ups, sit in a helper thread whose progress the history controls.
+   One to three data link connections per link (Conn): a second one on the same listening SAP, a third on another
+   SAP with either end connecting; every connection has a reference window model of its own, selected by the SAP
+   pair of each wire PDU, and accepted / delivered lists of its own (messages carry a per-connection tag).
+   A second bounded-exhaustive part uses macro operations (send x RW, send(MIU), send(MIU + 1), recv x k, link turns
+   until quiet), configurations with B connecting, connection MIU != link MIU, N(S) positions 8..15 at the start
+   of the history (so that 3-5 step histories reach a full window across the 15 -> 0 wrap) and 2-3 connections.
 2. thread stress: both real run() loops, blocking sender and receiver threads on the connection's two sockets,
    yield injection through sys.monitoring LINE events in nfc/llcp/tco.py and llc.py.  Half of the runs have one
    sender and one receiver thread per end; in the others 2-4 sender threads (and 1-2 receiver threads) share the
    socket of an end and the peer announces RW 1..3, so that the senders queue up on the window and every
-   acknowledgement is contended (a woken sender is additionally delayed at random before it re-acquires the lock).
+   acknowledgement is contended (a woken sender is additionally kept off the lock until another sender has entered
+   send(), so that "woken sender finds the window full again" happens in every such run).  Close runs: a further
+   thread calls close() on one end while 1-3 senders work against a window of 1..3 and the receivers are blocked.
 3. forced schedules (Gated): the same contention made deterministic on a lock-step pair: the window is full, 1-3
    threads sit in blocking send() calls, the acknowledgement(s) arrive, the woken threads are held back before they
    re-acquire the connection's lock (GateCond, a delegating stand-in for the connection's Condition installed on the
    harness side) while further send() calls (blocking threads or MSG_DONTWAIT) take the freed slots, then the
    woken threads run; the receiver is prompt or calls recv() only when the link went quiet.  Same for two threads
    in recv() and a message that a third recv() takes first (observation: recv() then returns None on an open
-   connection - not judged, no message is lost).
+   connection - not judged, no message is lost).  Close scenarios (run_close): close() by the sending end or by
+   its peer while 1-3 senders sit on the full window or one send() has its I PDU still queued, 0-2 threads blocked
+   in recv() on either end.
 
-Oracles (identical in both):
+Oracles (identical in all):
   deliver/*   per direction the messages returned by recv() are a prefix of the messages accepted by send(),
               exactly once and in order; equal at quiescence unless close() was called on the connection.  With
               several threads on a socket "in order" is what the harness can know: m1 before m2 whenever send(m1)
               had returned before send(m2) was called (always within one sender thread), judged per receiver
-              thread; no duplicates; multiset equality at quiescence (judge_delivery)
+              thread; no duplicates; multiset equality at quiescence (judge_delivery).
+              Close class: after x called close() and y did not, y's application calls recv() until it returns None
+              or raises; it must then have got every I PDU of x that the wire carried before the DISC (accepted by
+              send() and transmitted; what close() found still queued may be dropped) (deliver/lost-after-peer-close).
+              Threaded runs: deliver/lost-at-quiescence/* is decided structurally (detect_lost): all sender threads
+              returned, only SYMM PDUs for 60 frames, every receiver thread a registered waiter, delivered < accepted.
   window/*    vf.ref.window_model over the wire PDUs as decoded by vf.ref.llcp_ref (RW/MIU from CONNECT/CC on the
               wire); a send refused with EWOULDBLOCK although fewer than RW(peer) of the accepted messages are
-              unacknowledged on the wire
+              unacknowledged on the wire - unless the peer's last RR/RNR on the wire says "busy" (a sender that
+              honours RNR holds back; nfcpy does not, the property does not say)
   miu/*       send(len > MIU announced by the peer) must be refused with EMSGSIZE and never show up anywhere
   escape/*    a link turn or an application call raises something the API does not document
   stall/*     (threads) an application thread sits in an untimed Condition.wait(), was never notified, although the
-              wire shows that the event it waits for has happened (lost wake-up); decided from the wire log and
-              the waiter registration, never from wall-clock time
+              wire shows that the event it waits for has happened (lost wake-up); after close(): every live
+              application thread is such a waiter and the wire is quiet (stall/blocked-after-close/*: "every call
+              returns"); decided from the wire log and the waiter registration, never from wall-clock time
 The first violation of a history ends it (later symptoms are consequences of the same state).
+An AttributeError/KeyError that comes from the harness's own steering through nfcpy / CPython internals (_tco,
+recv_ready, send_token, Condition._waiters, _release_save ...) is INCONCLUSIVE, never escape/* (steer, steering_fault).
 """
 import errno
 import hashlib
@@ -57,13 +76,19 @@ RULE = ("cases = (a) every history of length <= depth (quick 6, thorough 6 over 
         "over {link turn, send/recv/busy-toggle/close on either end, 'connect() returns'} for 12 "
         "window/aggregation/set-up configurations; a history is cut at its first no-op step (covered by the shorter "
         "history) and calls on different ends without a link turn in between are executed in one order only "
-        "(they commute), (b) random walks of 2000 (thorough 5000) steps with traffic profiles that change every "
+        "(they commute), (a2) the same over macro operations {send x RW, send(MIU), send(MIU+1), recv x k, link turns "
+        "until quiet, busy on A, close by B, ...} (quick depth 3-4, thorough 5-6) for 12 further configurations: B "
+        "connecting, connection MIU != link MIU, 8..15 messages per direction exchanged beforehand (N(S) position), "
+        "two or three data link connections on the link (same listening SAP / other SAP), "
+        "(b) random walks of 2000 (thorough 5000) steps with traffic profiles that change every "
         "~100 steps over random RW 0..15, connection MIU 128..2175, link MIU, aggregation, connecting end, 20% of "
-        "them with application calls on the accepting end before the CC left / before connect() returned, "
+        "them with application calls on the accepting end before the CC left / before connect() returned, 36% of the "
+        "others with 2-3 connections, a close() in 20% (50% with several connections) of the walks, "
         "(c) threaded runs with blocking calls, 50-500 messages per direction, randomised yields, half of them with "
-        "2-4 sender and 1-2 receiver threads per socket and RW 1..3 announced to the senders, (d) forced schedules "
-        "over RW 1..3 x 1-3 blocked senders x slots freed x number of RR PDUs x late-coming send() calls x N(S) "
-        "position x prompt/lazy receiver in which a woken sender is held before it re-acquires the lock; a case is distinct "
+        "2-4 sender and 1-2 receiver threads per socket and RW 1..3 announced to the senders, close runs, (d) forced "
+        "schedules over RW 1..3 x 1-3 blocked senders x slots freed x number of RR PDUs x late-coming send() calls x N(S) "
+        "position x prompt/lazy receiver in which a woken sender is held before it re-acquires the lock, and close "
+        "scenarios over {local, peer close} x {window full, I PDU in flight} x blocked receivers; a case is distinct "
         "by (configuration, operation list) resp. (configuration incl. seeds) and non-trivial when at least one "
         "I PDU went through the window model and one recv() was compared with the accepted sends")
 ASSUMPTIONS = ["vf.ref.llcp_ref decodes I/RR/RNR/CONNECT/CC as LLCP 1.3 section 4 defines them",
@@ -74,13 +99,30 @@ ASSUMPTIONS = ["vf.ref.llcp_ref decodes I/RR/RNR/CONNECT/CC as LLCP 1.3 section 
                "thread schedules are sampled with random yields, not enumerated to a preemption bound",
                "a thread that gives the connection's lock up again right after Condition.wait() returned (GateCond) is "
                "indistinguishable from a notified thread that has not been scheduled yet",
-               "after close() on either end only the prefix/exactly-once part of the delivery oracle applies",
+               "after close() on either end only the prefix/exactly-once part of the delivery oracle applies, plus: what "
+               "the closing end transmitted before its DISC reaches the peer's application",
+               "a blocking send() returns only after its I PDU was handed to the link (so 'all senders returned' means "
+               "nothing accepted is still queued)",
                "lost wake-ups are recognised through CPython's threading.Condition waiter registration"]
 REQUIRED = ["pdu_I", "pdu_RR", "pdu_RNR", "ns_wraps", "window_full_events", "rnr_episodes", "histories_enumerated",
             "walks", "recv_compared", "quiescence_equal_checked", "emsgsize_checked", "threaded_runs_completed",
             "threaded_messages_delivered", "thread_switches", "pdu_len_contract", "acks_polls_true",
             "acks_polls_true_after_wrap", "multi_sender_runs_completed", "gated_scenarios_completed",
-            "gate_window_forced", "woken_window_full_again"]
+            "gate_window_forced", "woken_window_full_again",
+            # close class
+            "close_drain_checked", "close_drain_pending_at_disc", "i_pdu_transmitted_after_close_call",
+            "gated_close_scenarios_completed", "gated_close_blocked_calls_returned", "gated_close_drain_checked",
+            "thr_close_runs_completed",
+            # several data link connections on one link
+            "pdu_on_extra_connection", "aggregates_with_foreign_pdu", "quiescence_equal_checked_multi",
+            "quiescence_equal_checked_beside_closed_connection",
+            # bounded-exhaustive macro part: window full across the 15 -> 0 wrap, refusal there, MIU boundary
+            "ex2_histories_enumerated", "ex2_window_full_across_wrap", "ex2_send_wouldblock_window_across_wrap",
+            "ex2_emsgsize_checked_at_miu_plus_1", "ex2_send_accepted_exactly_miu", "ex2_pdu_on_extra_connection",
+            "ex2_close_drain_checked",
+            # per monitor: the threaded and the forced-schedule monitors must have seen traffic of their own
+            "thr_pdu_I", "thr_ns_wraps", "gated_pdu_I", "stall_checks_armed", "lost_checks_evaluated",
+            "thr_woken_window_full_again"]
 
 EX_CONFIGS = [  # bounded-exhaustive configurations: RW(A), RW(B), aggregation, early (accepting end acts before the CC left)
     {"rw": [1, 1], "agf": 0, "early": 0}, {"rw": [1, 1], "agf": 1, "early": 0},
@@ -94,30 +136,58 @@ ALPHA_EARLY = ["T", "sB", "rB", "bB", "sA", "rA", "J"]     # early configuration
 ALPHA_FULL = ["T", "sA", "sB", "rA", "rB", "bA", "bB", "cA", "cB"]
 ALPHA_QUICK = ["T", "sA", "sB", "rA", "rB", "bB", "cA"]
 ALPHA_DEEP = ["T", "sA", "sB", "rA", "rB", "bB"]
+# second bounded-exhaustive part: macro operations (S = send x RW, m = send(MIU), o = send(MIU + 1), R = recv x k,
+# Q = link turns until quiet), busy on A and close by B, configurations with B connecting, a connection MIU different
+# from the link MIU, N(S) positions 8..15 at the start of the history ("pre" messages per direction delivered and
+# acknowledged during set-up) and two or three data link connections on the link (symbol suffix = connection index)
+A_MACRO = ["T", "Q", "SA", "SB", "RA", "RB", "sA", "mA", "oA", "bA", "cB"]
+A_MACRO_B = ["T", "Q", "SA", "SB", "RA", "RB", "sB", "mB", "oB", "bB", "bA", "cA", "cB"]
+A_MACRO_Q = ["Q", "SA", "SB", "RB", "sA", "mA", "oA", "bA", "cB"]
+A_MACRO_BQ = ["Q", "SA", "SB", "RA", "sB", "mB", "oB", "bA", "cB"]
+A_MULTI = ["T", "sA", "sB", "sA1", "sB1", "rA", "rB", "rA1", "rB1", "cA", "cB1"]
+A_MULTI_Q = ["T", "sA", "sB1", "sA1", "rB", "rA1", "rB1", "cA", "cB1"]
+A_MULTI3 = ["Q", "T", "SA", "SA1", "SB2", "SA2", "RB", "RB1", "RA2", "RB2", "cA1", "cB", "bB1"]
+C40A = {"sap": 40, "client": "A"}
+EX2_CONFIGS = [   # (configuration, alphabet and depth: quick, thorough)
+    ({"rw": [2, 2], "agf": 0, "pre": 14, "client": "B", "rcv_miu": [140, None]}, A_MACRO_Q, 3, A_MACRO, 5),
+    ({"rw": [15, 15], "agf": 1, "pre": 8}, A_MACRO_Q, 3, A_MACRO, 5),
+    ({"rw": [3, 1], "agf": 1, "pre": 13, "client": "B", "rcv_miu": [200, 129]}, A_MACRO_BQ, 3, A_MACRO_B, 5),
+    ({"rw": [1, 1], "agf": 1, "conns": [dict(C40A, rw=[1, 1])]}, A_MULTI_Q, 4, A_MULTI, 6),
+    ({"rw": [2, 2], "agf": 0, "conns": [dict(C40A, rw=[1, 2])]}, A_MULTI_Q, 4, A_MULTI, 6),
+    ({"rw": [2, 1], "agf": 1, "conns": [dict(C40A, rw=[1, 1]), {"sap": 41, "client": "B", "rw": [2, 2]}]}, A_MULTI3, 3, A_MULTI3, 5),
+    ({"rw": [1, 1], "agf": 0, "pre": 15, "client": "B"}, A_MACRO_BQ, 3, A_MACRO_B, 5),
+    ({"rw": [2, 3], "agf": 1, "pre": 14, "link_miu": [2175, 2175], "rcv_miu": [128, 300]}, A_MACRO_Q, 3, A_MACRO, 5),
+    ({"rw": [15, 2], "agf": 0, "pre": 9}, A_MACRO_Q, 3, A_MACRO, 5),
+    ({"rw": [2, 1], "agf": 1, "pre": 15, "conns": [{"sap": 41, "client": "B", "rw": [1, 2], "rcv_miu": [129, None]}]}, A_MULTI_Q, 3, A_MULTI, 5),
+    ({"rw": [0, 2], "agf": 0, "pre": 15, "client": "B"}, A_MACRO_Q, 3, A_MACRO, 5),
+    ({"rw": [1, 15], "agf": 1, "pre": 15, "client": "B", "link_miu": [1000, 248], "rcv_miu": [129, 1000]}, A_MACRO_BQ, 3, A_MACRO_B, 5),
+]
 
 
 def plan(tier, seed):
     out = []
     for i in range(12):
         ex = dict(EX_CONFIGS[i])
-        d = {"kind": "lockstep", "ex": ex, "invariants": i % 2}
+        ex2, aq, dq, at, dt = EX2_CONFIGS[i]
+        d = {"kind": "lockstep", "ex": ex, "invariants": i % 2, "ex2": dict(ex2), "ex2_alphabet": aq if tier == "quick" else at}
         if tier == "quick":
-            d.update(depth=6, alphabet=ALPHA_QUICK, walks=70, steps=2000, timeout=600)
+            d.update(depth=6, alphabet=ALPHA_QUICK, walks=70, steps=2000, timeout=600, ex2_depth=dq)
             if ex["early"]:
                 d.update(depth=5, alphabet=ALPHA_EARLY)
         else:
-            d.update(depth=6, alphabet=ALPHA_FULL, walks=400, steps=5000, timeout=3000)
+            d.update(depth=6, alphabet=ALPHA_FULL, walks=400, steps=5000, timeout=3000, ex2_depth=dt)
             if ex["early"]:
                 d.update(depth=6, alphabet=ALPHA_EARLY)
             else:
                 d.update(depth2=8, alphabet2=ALPHA_DEEP)
         out.append(d)
     for i in range(4):
-        d = {"kind": "threaded", "greet_run": 1, "multi_runs": [2, 3, 5], "gated": 40 if tier == "quick" else 400}
+        d = {"kind": "threaded", "greet_run": 1, "multi_runs": [2, 3, 5], "gated": 40 if tier == "quick" else 400,
+             "gated_close": 30 if tier == "quick" else 300}
         if tier == "quick":
-            d.update(runs=6, n_lo=50, n_hi=220, budget=25, timeout=600)
+            d.update(runs=6, close_runs=2, n_lo=50, n_hi=220, budget=25, timeout=600)
         else:
-            d.update(runs=40, n_lo=50, n_hi=500, budget=300, timeout=3000)
+            d.update(runs=40, close_runs=12, n_lo=50, n_hi=500, budget=300, timeout=3000)
         out.append(d)
     return out
 
@@ -187,8 +257,76 @@ def thread_blocked(th):
             and "waiter" in f.f_locals)
 
 
+class _WouldBlock(Exception):
+    """raised by the harness's stand-in Condition instead of blocking the (only) driving thread"""
+
+
+def steer(obj, name):
+    """nfcpy-internal / CPython-internal attribute that the harness uses only to steer a schedule (never to judge):
+    if it is not there the harness cannot run the case -> Inconclusive, never a verdict about nfcpy"""
+    try:
+        return getattr(obj, name)
+    except AttributeError:
+        raise Inconclusive("steering attribute %s.%s is not available" % (type(obj).__name__, name))
+
+
+def steering_fault(e):
+    """True for an AttributeError/KeyError that comes from the harness's own steering (innermost frame in /verif or in
+    CPython's threading module, or raised on one of the delegating Condition stand-ins), not from nfcpy's code"""
+    if not isinstance(e, (AttributeError, KeyError)):
+        return False
+    if isinstance(getattr(e, "obj", None), (PumpCond, GateCond)):
+        return True
+    tb, last = e.__traceback__, None
+    while tb is not None:
+        tb, last = tb.tb_next, tb
+    if last is None:
+        return False
+    fn = last.tb_frame.f_code.co_filename
+    if fn.endswith("threading.py") or "/vf/" in fn:
+        return True
+    return False
+
+
+def not_steering(e):
+    """gate in front of every escape/* verdict"""
+    if steering_fault(e):
+        raise Inconclusive("harness steering failed (%s: %s): nfcpy / CPython internals differ from what the harness "
+                           "expects" % (type(e).__name__, e))
+
+
+ARITY = {"s": 3, "r": 2, "b": 3, "p": 3, "c": 2, "S": 2, "R": 2}
+
+
+class Conn:
+    """harness-side record of ONE data link connection of the pair: its own reference window model (keyed on the wire
+    by the SAP pair), its own accepted / delivered lists"""
+
+    def __init__(self, idx, spec):
+        self.idx, self.spec = idx, spec
+        self.model = WindowModel()
+        self.key = None                                   # (SAP at A, SAP at B), known when the CONNECT is on the wire
+        self.client, self.server = spec["client"], other(spec["client"])
+        self.sock = {"A": None, "B": None}
+        self.sent = {"A": [], "B": []}
+        self.rcvd = {"A": [], "B": []}
+        self.ctr = {"A": 0, "B": 0}
+        self.tag = {"A": chr(65 + 2 * idx), "B": chr(66 + 2 * idx)}      # first octet of every message of that sender
+        self.closed = {"A": False, "B": False}
+        self.any_close = False
+        self.refused = set()
+        self.ann_busy = {"A": False, "B": False}
+        self.acks_polled = {"A": 0, "B": 0}               # poll("acks") calls that returned True, per end
+        self.wire_i = {"A": 0, "B": 0}                    # I PDUs of that sender on the wire while the connection was open
+        self.pending_at_disc = {"A": 0, "B": 0}
+        self.disc_seen = {"A": False, "B": False}
+        self.i_seen = self.compared = 0
+
+
 class Exec:
-    """executes one lock-step history against two real LLCs and evaluates the oracles online"""
+    """executes one lock-step history against two real LLCs and evaluates the oracles online.
+    cfg["conns"] adds further data link connections on the same link (same or another listening SAP, either end
+    connecting); an operation names its connection by a trailing index (none = connection 0)"""
 
     def __init__(self, cfg, st):
         import nfc.llcp
@@ -201,61 +339,77 @@ class Exec:
         self.lp.keep_wire = False
         if not (self.lp.ok_a and self.lp.ok_b):
             raise Inconclusive("LLC activation failed")
-        self.model = WindowModel()
+        base = {"sap": 40, "client": cfg.get("client", "A"), "rw": cfg["rw"], "rcv_miu": cfg.get("rcv_miu", [None, None])}
+        self.conns = [Conn(0, base)]
+        self.by_key = {}
+        self.pending = None              # connection whose CONNECT is expected on the wire next
+        self.listeners = {}              # (end, sap) -> listening socket
         self.next_turn = "A"
-        self.sock = {"A": None, "B": None}
-        self.sent = {"A": [], "B": []}
-        self.rcvd = {"A": [], "B": []}
-        self.ctr = {"A": 0, "B": 0}
-        self.closed = {"A": False, "B": False}
-        self.any_close = False
-        self.refused = set()
-        self.ann_busy = {"A": False, "B": False}
         self.last_leaves = []
-        self.i_seen = 0
-        self.acks_polled = {"A": 0, "B": 0}      # poll("acks") calls that returned True, per end
-        self.compared = 0
         self.prev_symm = False
         self.held = None
         self.cc_delivered = False
         self.ctx = ""                # structural context appended to the signature of a later violation
         self.helper = None           # (end, thread, result) of a connect() still blocked (early mode)
         self.trace = []
-        self._connect()
+        self.connect_done = False
+        self._connect(self.conns[0], cfg.get("early", 0))
+        if not cfg.get("early"):
+            for spec in cfg.get("conns", ()):
+                c = Conn(len(self.conns), spec)
+                self.conns.append(c)
+                self._connect(c, 0)
+            if cfg.get("pre"):
+                self._preload(cfg["pre"])
+
+    # single-connection views (witness samples, evidence)
+    sent = property(lambda self: self.conns[0].sent)
+    rcvd = property(lambda self: self.conns[0].rcvd)
+    model = property(lambda self: self.conns[0].model)
+    i_seen = property(lambda self: sum(c.i_seen for c in self.conns))
+    compared = property(lambda self: sum(c.compared for c in self.conns))
+    client = property(lambda self: self.conns[0].client)
 
     # -- set-up -------------------------------------------------------------------------------------------
-    def _opts(self, sock, i):
+    def _opts(self, sock, spec, i):
         L = self.nfc.llcp
-        m = self.cfg.get("rcv_miu", [None, None])[i]
+        m = spec.get("rcv_miu", [None, None])[i]
         if m is not None:
             sock.setsockopt(L.SO_RCVMIU, m)
-        got = sock.setsockopt(L.SO_RCVBUF, self.cfg["rw"][i])
-        if got != self.cfg["rw"][i]:
-            raise Inconclusive("socket API does not accept RW=%r (got %r)" % (self.cfg["rw"][i], got))
+        got = sock.setsockopt(L.SO_RCVBUF, spec["rw"][i])
+        if got != spec["rw"][i]:
+            raise Inconclusive("socket API does not accept RW=%r (got %r)" % (spec["rw"][i], got))
 
-    def _connect(self):
+    def _listener(self, end, spec):
         L = self.nfc.llcp
-        c = self.cfg.get("client", "A")
-        s = other(c)
-        srv = L.Socket(self.lp.llc(s), L.DATA_LINK_CONNECTION)
-        self._opts(srv, "AB".index(s))
-        srv.bind(40)
-        srv.listen(1)
+        key = (end, spec["sap"])
+        if key not in self.listeners:
+            srv = L.Socket(self.lp.llc(end), L.DATA_LINK_CONNECTION)
+            self._opts(srv, spec, "AB".index(end))
+            srv.bind(spec["sap"])
+            srv.listen(1)
+            self.listeners[key] = srv
+        return self.listeners[key]
+
+    def _connect(self, conn, early):
+        L = self.nfc.llcp
+        c, s, spec = conn.client, conn.server, conn.spec
+        srv = self._listener(s, spec)
         cli = L.Socket(self.lp.llc(c), L.DATA_LINK_CONNECTION)
-        self._opts(cli, "AB".index(c))
-        self.srv, self.client, self.server = srv, c, s
-        self.connect_done = False
+        self._opts(cli, spec, "AB".index(c))
+        self.srv = srv
+        self.pending = conn
 
         def accept_when_ready():
-            if self.sock[s] is None and any(x["t"] == "CONNECT" for x in self.last_leaves):
-                self.sock[s] = srv.accept()
+            if conn.sock[s] is None and any(x["t"] == "CONNECT" for x in self.last_leaves):
+                conn.sock[s] = srv.accept()
 
-        if self.cfg.get("early"):
+        if early:
             res = {}
 
             def run():
                 try:
-                    cli.connect(40)
+                    cli.connect(spec["sap"])
                     res["ok"] = True
                 except BaseException as e:
                     res["exc"] = e
@@ -263,16 +417,16 @@ class Exec:
             th.start()
             self._wait_blocked(th)
             self.helper = (c, th, res)
-            self.sock[c] = cli
-            if self.cfg["early"] == 2:
+            conn.sock[c] = cli
+            if early == 2:
                 # "the thread inside connect() is not scheduled before step J": the driving thread keeps the socket's
                 # (re-entrant) lock, so the woken connect() cannot leave its wait; link turns run in the driving thread
-                self.held = cli._tco.lock
+                self.held = steer(steer(cli, "_tco"), "lock")
                 self.held.acquire()
             for _ in range(4):
                 self.turn()
                 accept_when_ready()
-                if self.sock[s] is not None:
+                if conn.sock[s] is not None:
                     break
             else:
                 raise Inconclusive("CONNECT did not reach the listening socket")
@@ -282,19 +436,54 @@ class Exec:
             for _ in range(8):
                 self.turn()
                 accept_when_ready()
-                if any(x["t"] in ("CC", "DM") for x in self.last_leaves) and self.last_dir == s:
+                if self.last_dir == s and any(x["t"] in ("CC", "DM") and self._conn_of(s, x) is conn for x in self.last_leaves):
                     return
-        tco = cli._tco
-        real = tco.recv_ready
+        tco = steer(cli, "_tco")
+        real = steer(tco, "recv_ready")
         tco.recv_ready = PumpCond(real, pump)
         try:
-            cli.connect(40)
+            cli.connect(spec["sap"])
+        except Violation:
+            raise
+        except L.Error as e:
+            raise Violation("api/connect/unexpected-%s" % errname(e), "connect() of connection #%d raised %r" % (conn.idx, e))
+        except Exception as e:
+            not_steering(e)
+            raise Violation("escape/connect/%s" % exc_sig(e), "connect() of connection #%d raised %r" % (conn.idx, e))
         finally:
             tco.recv_ready = real
-        self.sock[c] = cli
+        conn.sock[c] = cli
         self.connect_done = True
-        if self.sock[s] is None:
+        if conn.sock[s] is None:
             raise Inconclusive("connect() returned without an accepted socket")
+
+    def _preload(self, n):
+        """configuration dimension 'N(S) position': n messages per direction and connection are sent, delivered and
+        acknowledged before the history starts, so that short histories run across the modulo-16 wrap"""
+        pingpong = all(c.model.rw.get(e, 0) >= 1 for c in self.conns for e in "AB")
+        small = any(c.model.rw.get(e, 0) < 2 for c in self.conns for e in "AB")
+        for i in range(n):
+            for c in self.conns:
+                for x in "AB":
+                    if c.model.rw.get(other(x), 0) >= 1:
+                        self.op_s(c, x, 8)
+            if pingpong and i < n - 1:
+                # every message is answered by one in the other direction, which carries the acknowledgement
+                for _ in range(2 * len(self.conns)):
+                    self.turn()
+                for c in self.conns:
+                    for x in "AB":
+                        self.op_r(c, x)
+                if small:               # a window of one re-opens only with the RR that follows the recv()
+                    for _ in range(2 * len(self.conns)):
+                        self.turn()
+            else:
+                self.drain()
+        for c in self.conns:
+            for x in "AB":
+                if c.model.rw.get(other(x), 0) >= 1 and (len(c.rcvd[other(x)]) != n or c.model.acked[x] != n):
+                    raise Inconclusive("preload did not complete")
+        self.st.inc("preloaded_histories")
 
     def _wait_blocked(self, th, limit=20000):
         for _ in range(limit):
@@ -303,10 +492,10 @@ class Exec:
             time.sleep(0)
         raise Inconclusive("helper thread neither blocked nor finished")
 
-    def usable(self, end):
-        if self.sock[end] is None or self.closed[end]:
+    def usable(self, c, end):
+        if c.sock[end] is None or c.closed[end]:
             return False
-        return not (self.helper and self.helper[0] == end)
+        return not (self.helper and self.helper[0] == end and c.idx == 0)
 
     # -- link ---------------------------------------------------------------------------------------------
     def turn(self):
@@ -316,10 +505,11 @@ class Exec:
         self.next_turn = y
         self.last_dir, self.last_leaves = x, []
         src, dst = self.lp.llc(x), self.lp.llc(y)
-        after = "/after-close" if self.closed[x] else ""
+        after = "/after-close" if any(c.closed[x] for c in self.conns) else ""
         try:
             p = src.collect()
         except Exception as e:
+            not_steering(e)
             raise Violation("escape/collect/%s%s" % (exc_sig(e), after), "collect() raised %r" % e)
         if p is None:
             st.inc("symm_turns")
@@ -342,6 +532,8 @@ class Exec:
             raise Violation("wire/undecodable", "reference decoder rejects a transmitted frame: %s" % e)
         if len(leaves) > 1:
             st.inc("aggregated_frames")
+            if len(self.conns) > 1 and len(set((d.get("dsap"), d.get("ssap")) for d in leaves)) > 1:
+                st.inc("aggregates_with_foreign_pdu")
         self.last_leaves = leaves
         for d in leaves:
             self.observe(x, d)
@@ -354,6 +546,7 @@ class Exec:
         try:
             dst.dispatch(P.decode(enc))
         except Exception as e:
+            not_steering(e)
             raise Violation("escape/dispatch/%s" % exc_sig(e), "dispatch() raised %r" % e)
         if self.helper and self.helper[0] == y and self.cc_delivered and self.held is None:
             self.join_connect()
@@ -370,6 +563,7 @@ class Exec:
         self.helper = None
         self.connect_done = True
         if "exc" in res:
+            not_steering(res["exc"])
             raise Violation("escape/connect/%s" % exc_sig(res["exc"]), "connect() raised %r" % res["exc"])
 
     def op_J(self, end):
@@ -379,35 +573,79 @@ class Exec:
         self.join_connect()
         return False
 
+    def op_Q(self):
+        """macro: the link turns until nothing moves any more (two empty turns in a row), bounded"""
+        moved = quiet = 0
+        for _ in range(64):
+            if self.turn():
+                moved, quiet = moved + 1, 0
+            else:
+                quiet += 1
+                if quiet >= 2:
+                    break
+        self.prev_symm = quiet >= 1
+        return moved == 0
+
+    def _conn_of(self, x, d):
+        """connection a leaf PDU transmitted by end x belongs to: by its SAP pair"""
+        if "dsap" not in d:
+            return None
+        key = (d["ssap"], d["dsap"]) if x == "A" else (d["dsap"], d["ssap"])
+        c = self.by_key.get(key)
+        if c is None and d["t"] == "CONNECT" and self.pending is not None and x == self.pending.client:
+            c, self.pending = self.pending, None
+            c.key = key
+            self.by_key[key] = c
+        return c
+
     def observe(self, x, d):
-        st, m, t = self.st, self.model, d["t"]
+        st, t = self.st, d["t"]
         st.inc("pdu_" + t)
+        c = self._conn_of(x, d)
+        if c is None:
+            st.inc("pdu_unrouted")
+            st.inc("pdu_unrouted_" + t)
+            return
+        m = c.model
+        if c.idx:
+            st.inc("pdu_on_extra_connection")
         if t == "RNR":
-            if not self.ann_busy[x]:
+            if not c.ann_busy[x]:
                 st.inc("rnr_episodes")
-            self.ann_busy[x] = True
+            c.ann_busy[x] = True
         elif t == "RR":
-            self.ann_busy[x] = False
+            c.ann_busy[x] = False
         elif t == "I":
-            self.i_seen += 1
-            if d["data"] in self.refused:
+            c.i_seen += 1
+            if d["data"] in c.refused:
                 raise Violation("miu/refused-message-transmitted" if len(d["data"]) > m.miu.get(other(x), 1 << 30)
                                 else "window/refused-message-transmitted",
                                 "a message send() refused is on the wire (%d bytes)" % len(d["data"]))
+            if m.established and not m.closed:
+                c.wire_i[x] += 1
+                if c.closed[x]:
+                    st.inc("i_pdu_transmitted_after_close_call")
+        elif t == "DISC" and not c.disc_seen[x]:
+            c.disc_seen[x] = True
+            c.pending_at_disc[x] = c.wire_i[x] - len(c.rcvd[other(x)])
         wraps, full = m.wraps, m.full
         bad = m.feed(x, d)
         st.inc("ns_wraps", m.wraps - wraps)
         st.inc("window_full_events", m.full - full)
         if t == "I":
             st.mx("max_outstanding", m.outstanding(x))
+            if m.full != full and m.vs[x] < m.va[x]:
+                st.inc("window_full_across_wrap")       # the full window contains the 15 -> 0 step
             if m.rw.get(other(x)) == 15 and m.outstanding(x) == 15:
                 st.inc("window_full_at_rw15")
+            if m.miu.get(other(x)) == len(d["data"]):
+                st.inc("i_pdu_of_exactly_miu")
         if bad:
             clause, detail = bad[0]
             if clause == "pdu-before-cc":
                 clause += "/" + t
-            raise Violation("window/" + clause, "%s>%s %s: %s (RW announced A=%s B=%s)" % (
-                x, other(x), t, detail, m.rw.get("A"), m.rw.get("B")))
+            raise Violation("window/" + clause, "%s>%s %s: %s (RW announced A=%s B=%s%s)" % (
+                x, other(x), t, detail, m.rw.get("A"), m.rw.get("B"), ", connection #%d" % c.idx if c.idx else ""))
 
     # -- application operations ---------------------------------------------------------------------------
     def do(self, op):
@@ -418,92 +656,131 @@ class Exec:
             noop = symm and self.prev_symm       # two empty turns in a row: same state, same side to move
             self.prev_symm = symm
             return noop
+        if k == "Q":
+            return self.op_Q()
         self.prev_symm = False
         if k == "J":
             return self.op_J(self.client)
-        end = op[1]
-        if not self.usable(end):
+        end, n = op[1], ARITY[k]
+        ci = op[n] if len(op) > n else 0
+        if ci >= len(self.conns):
             return True
-        return getattr(self, "op_" + k)(end, *op[2:])
+        c = self.conns[ci]
+        if not self.usable(c, end):
+            return True
+        return getattr(self, "op_" + k)(c, end, *op[2:n])
 
-    def _api_error(self, call, e):
+    def _api_error(self, c, call, e):
         """an nfc.llcp.Error other than the ones the property talks about: only acceptable once close() was called"""
         if isinstance(e, self.nfc.llcp.Error):
-            if self.any_close:
+            if c.any_close:
                 self.st.inc("errors_after_close")
                 return True
             raise Violation("api/%s/unexpected-%s" % (call, errname(e)),
                             "%s raised %r on a connection nobody closed" % (call, e))
-        raise Violation("escape/%s/%s%s" % (call, exc_sig(e), "/after-close" if self.any_close else ""),
+        not_steering(e)
+        raise Violation("escape/%s/%s%s" % (call, exc_sig(e), "/after-close" if c.any_close else ""),
                         "%s raised %r" % (call, e))
 
-    def op_s(self, end, n):
-        st, m, L = self.st, self.model, self.nfc.llcp
+    def op_s(self, c, end, n):
+        st, m, L = self.st, c.model, self.nfc.llcp
         peer = other(end)
-        msg = make_msg(end, self.ctr[end], n)
-        self.ctr[end] += 1
+        if peer not in m.miu or peer not in m.rw:
+            return True                   # connection set-up not complete on the wire
         miu = m.miu[peer]
-        unacked = len(self.sent[end]) - m.acked[end]
+        if n == "M":
+            n = miu
+        elif n == "M+1":
+            n = miu + 1
+        msg = make_msg(c.tag[end], c.ctr[end], n)
+        c.ctr[end] += 1
+        unacked = len(c.sent[end]) - m.acked[end]
         try:
-            ok = self.sock[end].send(msg, self.DONTWAIT)
+            ok = c.sock[end].send(msg, self.DONTWAIT)
         except L.Error as e:
             if n >= 5:
-                self.refused.add(msg)
+                c.refused.add(msg)
             if e.errno == errno.EMSGSIZE:
                 if n <= miu:
                     raise Violation("miu/refused-within-miu", "send(%d bytes) -> EMSGSIZE, peer announced MIU %d" % (n, miu))
                 st.inc("emsgsize_checked")
+                st.inc("emsgsize_checked_at_miu_plus_1", int(n == miu + 1))
                 return True
             if e.errno == errno.EWOULDBLOCK:
                 if n > miu:
                     st.inc("oversize_refused_wouldblock")
-                elif unacked < m.rw[peer] and not self.any_close:
-                    raise Violation("window/send-refused-while-open",
-                                    "send() -> EWOULDBLOCK with %d of RW(%s)=%d accepted messages unacknowledged on "
-                                    "the wire" % (unacked, peer, m.rw[peer]))
+                elif unacked < m.rw[peer] and not c.any_close:
+                    if c.ann_busy[peer]:
+                        # the peer's last RR/RNR on the wire says "busy": a sender that honours RNR holds back
+                        st.inc("send_refused_while_peer_busy")
+                    else:
+                        raise Violation("window/send-refused-while-open",
+                                        "send() -> EWOULDBLOCK with %d of RW(%s)=%d accepted messages unacknowledged on "
+                                        "the wire" % (unacked, peer, m.rw[peer]))
                 st.inc("send_wouldblock")
+                if m.vs[end] < m.va[end]:
+                    st.inc("send_wouldblock_window_across_wrap")
                 return True
-            return self._api_error("send", e)
+            return self._api_error(c, "send", e)
         except Exception as e:
-            return self._api_error("send", e)
+            return self._api_error(c, "send", e)
         if ok is True:
             if n > miu:
                 raise Violation("miu/oversize-accepted", "send(%d bytes) accepted, peer announced MIU %d" % (n, miu))
-            self.sent[end].append(msg)
+            c.sent[end].append(msg)
             st.inc("send_accepted")
+            st.inc("send_accepted_exactly_miu", int(n == miu))
             st.mx("max_msg_len", n)
             return False
         if n >= 5:
-            self.refused.add(msg)
-        if not self.any_close:
+            c.refused.add(msg)
+        if not c.any_close:
             raise Violation("api/send/returned-%r-without-close" % ok, "send() returned %r" % ok)
         return True
 
-    def op_r(self, end):
+    def op_S(self, c, end):
+        """macro: fill the window - RW(peer) sends of 8 octets (stops at the first refusal)"""
+        noop = True
+        for _ in range(max(1, c.model.rw.get(other(end), 1))):
+            if self.op_s(c, end, 8):
+                break
+            noop = False
+        return noop
+
+    def op_r(self, c, end):
         try:
-            ready = self.sock[end].poll("recv", 0)
+            ready = c.sock[end].poll("recv", 0)
         except Exception as e:
-            return self._api_error("poll", e)
+            return self._api_error(c, "poll", e)
         if not ready:
             return True
         try:
-            msg = self.sock[end].recv()
+            msg = c.sock[end].recv()
         except Exception as e:
-            return self._api_error("recv", e)
-        self.check_recv(end, msg)
+            return self._api_error(c, "recv", e)
+        self.check_recv(c, end, msg)
         return False
 
-    def check_recv(self, end, msg):
-        got, acc = self.rcvd[end], self.sent[other(end)]
+    def op_R(self, c, end):
+        """macro: recv() as long as poll('recv', 0) says there is something"""
+        noop = True
+        for _ in range(16):
+            if self.op_r(c, end):
+                break
+            noop = False
+        return noop
+
+    def check_recv(self, c, end, msg):
+        got, acc = c.rcvd[end], c.sent[other(end)]
         d = "%s>%s" % (other(end), end)
         if not isinstance(msg, (bytes, bytearray)):
-            if msg is None and self.any_close:
+            if msg is None and c.any_close:
                 return
             raise Violation("deliver/recv-returned-%s" % type(msg).__name__, "%s recv() after poll('recv')=True returned %r" % (d, msg))
         msg = bytes(msg)
         k = len(got)
         self.st.inc("recv_compared")
-        self.compared += 1
+        c.compared += 1
         if k < len(acc) and acc[k] == msg:
             got.append(msg)
             return
@@ -511,70 +788,76 @@ class Exec:
             raise Violation("deliver/duplicate", "%s message #%d delivered again as #%d" % (d, acc.index(msg), k))
         if msg in acc[k + 1:]:
             raise Violation("deliver/lost-or-reordered", "%s recv #%d returned accepted message #%d" % (d, k, acc.index(msg, k + 1)))
+        for o in self.conns:
+            if o is not c and (msg in o.sent["A"] or msg in o.sent["B"]) and len(msg) >= 5:
+                raise Violation("deliver/message-of-another-connection", "%s recv #%d on connection #%d returned a message "
+                                "accepted on connection #%d" % (d, k, c.idx, o.idx))
         raise Violation("deliver/never-accepted", "%s recv #%d returned %d bytes no send() accepted at that position" % (d, k, len(msg)))
 
-    def op_b(self, end, v):
+    def op_b(self, c, end, v):
         try:
-            self.sock[end].setsockopt(self.nfc.llcp.SO_RCVBSY, bool(v))
+            c.sock[end].setsockopt(self.nfc.llcp.SO_RCVBSY, bool(v))
             self.st.inc("busy_set" if v else "busy_cleared")
         except Exception as e:
-            return self._api_error("setsockopt", e)
+            return self._api_error(c, "setsockopt", e)
         return False
 
-    def op_p(self, end, ev):
+    def op_p(self, c, end, ev):
         try:
-            r = self.sock[end].poll(ev, 0)
+            r = c.sock[end].poll(ev, 0)
             self.st.inc("polls")
         except Exception as e:
-            return self._api_error("poll", e)
+            return self._api_error(c, "poll", e)
         if ev == "acks":
-            self.check_acks_poll(end, r)
+            self.check_acks_poll(c, end, r)
         return False
 
-    def check_acks_poll(self, end, r):
+    def check_acks_poll(self, c, end, r):
         """poll("acks") is documented to return True iff the counter of received acknowledgements is > 0 and
         then to decrement it: between link turns that counter is exactly (I PDUs of this end acknowledged by N(R)
         values on the wire, per the reference window model) - (polls that returned True)"""
-        m, st = self.model, self.st
-        if not m.established or m.closed or self.any_close:
+        m, st = c.model, self.st
+        if not m.established or m.closed or c.any_close:
             return
-        avail = m.acked[end] - self.acks_polled[end]
+        avail = m.acked[end] - c.acks_polled[end]
         st.inc("acks_polls_judged")
         if r is True:
-            self.acks_polled[end] += 1
+            c.acks_polled[end] += 1
             st.inc("acks_polls_true")
             if m.acked[end] > 16:
                 st.inc("acks_polls_true_after_wrap")
         if avail > 0 and r is not True:
             raise Violation("acks/poll-false-with-acknowledgements-pending" + ("/after-wrap" if m.sent[end] >= 16 else ""),
                             "poll('acks') -> %r at %s with %d acknowledged on the wire and %d consumed" % (
-                                r, end, m.acked[end], self.acks_polled[end]))
+                                r, end, m.acked[end], c.acks_polled[end]))
         if avail <= 0 and r is True:
             raise Violation("acks/poll-true-without-acknowledgement",
                             "poll('acks') -> True at %s with %d acknowledged on the wire and %d consumed before" % (
-                                end, m.acked[end], self.acks_polled[end] - 1))
+                                end, m.acked[end], c.acks_polled[end] - 1))
 
-    def op_c(self, end):
+    def op_c(self, c, end):
         """close(): its wait for the DM turns the link (bounded); returns when close() returns"""
-        sock = self.sock[end]
-        self.closed[end] = self.any_close = True
+        sock = c.sock[end]
+        c.closed[end] = c.any_close = True
         self.st.inc("closes")
+        self.st.inc("closes_with_other_connections_open", int(any(not o.any_close for o in self.conns if o is not c)))
 
         def pump():
-            for _ in range(8):
+            # everything close() found queued goes out in front of the DISC: at most RW I PDUs, one link turn each
+            for _ in range(44):
                 self.turn()
-                if self.last_dir == other(end) and any(d["t"] == "DM" for d in self.last_leaves):
+                if self.last_dir == other(end) and any(d["t"] == "DM" and self._conn_of(other(end), d) is c for d in self.last_leaves):
                     return
             self.st.inc("close_without_dm")
-        tco = sock._tco
-        real = tco.recv_ready
+        tco = steer(sock, "_tco")
+        real = steer(tco, "recv_ready")
         tco.recv_ready = PumpCond(real, pump)
         try:
             sock.close()
         except Violation:
             raise
         except Exception as e:
-            return self._api_error("close", e)
+            return self._api_error(c, "close", e)
         finally:
             tco.recv_ready = real
         return False
@@ -588,35 +871,98 @@ class Exec:
             if self.helper and self.cc_delivered:
                 self.join_connect()
                 moved = True
-            for end in "AB":
-                if self.usable(end):
-                    while not self.op_r(end):
-                        moved = True
+            for c in self.conns:
+                for end in "AB":
+                    if self.usable(c, end):
+                        while not self.op_r(c, end):
+                            moved = True
             quiet = 0 if moved else quiet + 1
             if quiet >= 1 and not self.helper:       # a round without any PDU or recv() leaves the state unchanged
                 return
         raise Inconclusive("link not quiescent after 400 rounds without application sends")
 
-    def finish(self, probe=True):
-        for end in "AB":
-            if self.usable(end):
-                self.op_b(end, 0)
-        self.drain()
-        for rnd in (0, 1):
-            if self.any_close:
-                self.st.inc("quiescence_prefix_only")
+    def recv_to_the_end(self, c, y):
+        """the peer of y has closed and poll('recv') has nothing more: recv() is called until it returns None or
+        raises (it consumes the queued disconnect indication); the call never blocks the driving thread"""
+        def would_block():
+            raise _WouldBlock()
+        st = self.st
+        for _ in range(20):
+            tco = steer(c.sock[y], "_tco")
+            real = steer(tco, "recv_ready")
+            tco.recv_ready = PumpCond(real, would_block)
+            try:
+                msg = c.sock[y].recv()
+            except _WouldBlock:
+                st.inc("close_drain_recv_would_block")
                 return
-            for x in "AB":
-                if self.rcvd[other(x)] != self.sent[x]:
-                    raise Violation("deliver/lost-at-quiescence", "%s>%s: %d accepted, %d delivered after draining" % (
-                        x, other(x), len(self.sent[x]), len(self.rcvd[other(x)])))
-            self.st.inc("quiescence_equal_checked")
-            if not probe:
+            except self.nfc.llcp.Error:
+                st.inc("close_drain_recv_error")
+                return
+            except Exception as e:
+                self._api_error(c, "recv", e)
+                return
+            finally:
+                tco.recv_ready = real
+            if msg is None:
+                st.inc("close_drain_recv_none")
+                continue                    # the next call raises (connection shut down) or would block
+            st.inc("close_drain_recv_after_poll_false")
+            self.check_recv(c, y, msg)
+
+    def check_closed(self, c):
+        """close class: end x called close(), y did not.  Every I PDU of x that the wire carried while the connection
+        was open (before the DISC) was accepted by send() and transmitted: y's application must get it by calling
+        recv() until that returns None / raises.  What was still queued when close() was called may be dropped (nfcpy
+        transmits it in front of the DISC: then it counts as transmitted)."""
+        st = self.st
+        for x in "AB":
+            y = other(x)
+            if not (c.closed[x] and not c.closed[y] and c.sock[y] is not None) or (self.helper and c.idx == 0):
+                continue
+            self.recv_to_the_end(c, y)
+            st.inc("close_drain_checked")
+            st.inc("close_drain_pending_at_disc", int(c.pending_at_disc[x] > 0))
+            st.inc("close_drain_messages", len(c.rcvd[y]))
+            if len(c.rcvd[y]) < c.wire_i[x]:
+                raise Violation("deliver/lost-after-peer-close",
+                                "%s>%s: %s called close(); %d I PDUs were on the wire before the DISC (%d accepted by "
+                                "send()), the peer's recv() returned only %d until it reported the end" % (
+                                    x, y, x, c.wire_i[x], len(c.sent[x]), len(c.rcvd[y])))
+
+    def finish(self, probe=True):
+        st = self.st
+        for c in self.conns:
+            for end in "AB":
+                if self.usable(c, end):
+                    self.op_b(c, end, 0)
+        self.drain()
+        open_conns = []
+        for c in self.conns:
+            if c.any_close:
+                self.check_closed(c)
+                st.inc("quiescence_prefix_only")
+            else:
+                open_conns.append(c)
+        for rnd in (0, 1):
+            for c in open_conns:
+                for x in "AB":
+                    if c.rcvd[other(x)] != c.sent[x]:
+                        raise Violation("deliver/lost-at-quiescence", "%s>%s: %d accepted, %d delivered after draining%s" % (
+                            x, other(x), len(c.sent[x]), len(c.rcvd[other(x)]),
+                            " (connection #%d of %d)" % (c.idx, len(self.conns)) if len(self.conns) > 1 else ""))
+                st.inc("quiescence_equal_checked")
+                if len(self.conns) > 1:
+                    st.inc("quiescence_equal_checked_multi")
+                    if any(o.any_close for o in self.conns):
+                        st.inc("quiescence_equal_checked_beside_closed_connection")
+            if not probe or not open_conns:
                 return
             if rnd == 0:        # everything is acknowledged now: one more message per direction must get through
-                for x in "AB":
-                    if self.model.rw.get(other(x), 0) >= 1 and self.usable(x):
-                        self.op_s(x, 9)
+                for c in open_conns:
+                    for x in "AB":
+                        if c.model.rw.get(other(x), 0) >= 1 and self.usable(c, x):
+                            self.op_s(c, x, 9)
                 self.drain()
 
     def cleanup(self):
@@ -628,7 +974,7 @@ class Exec:
             self.held = None
         if self.helper:
             try:
-                tco = self.helper and self.sock[self.helper[0]]._tco
+                tco = self.helper and self.conns[0].sock[self.helper[0]]._tco
                 with tco.lock:
                     tco.recv_ready.notify_all()
             except Exception:
@@ -637,6 +983,15 @@ class Exec:
 
 def run_history(cfg, ops, st, prune=False):
     """-> (index of first no-op step or None, Exec); raises Violation / Inconclusive"""
+    try:
+        return _run_history(cfg, ops, st, prune)
+    except (AttributeError, KeyError) as e:
+        if steering_fault(e):           # the harness's own steering failed: says nothing about nfcpy
+            raise Inconclusive("harness steering failed (%s: %s)" % (type(e).__name__, e))
+        raise
+
+
+def _run_history(cfg, ops, st, prune):
     ex = Exec(cfg, st)
     try:
         cut = None
@@ -690,14 +1045,25 @@ def shrink(cfg, ops, sig, budget=250):
 
 
 def expand(sym):
-    if sym in ("T", "J"):
+    """alphabet symbol -> operation: <kind><end>[<connection index>]; kinds s send(8 octets), m send(exactly the MIU the
+    peer announced), o send(MIU + 1), S send x RW (fill the window), r recv, R recv until nothing is ready, b busy toggle,
+    c close; T one link turn, Q link turns until quiet, J connect() returns"""
+    if sym in ("T", "J", "Q"):
         return [sym]
-    k, e = sym[0], sym[1]
+    k, e, ci = sym[0], sym[1], sym[2:]
     if k == "s":
-        return ["s", e, 8]
-    if k == "b":
-        return ["b", e, -1]          # toggle (resolved by the enumerator)
-    return [k, e]
+        op = ["s", e, 8]
+    elif k == "m":
+        op = ["s", e, "M"]
+    elif k == "o":
+        op = ["s", e, "M+1"]
+    elif k == "b":
+        op = ["b", e, -1]            # toggle (resolved by the enumerator)
+    else:
+        op = [k, e]
+    if ci:
+        op.append(int(ci))
+    return op
 
 
 class Reporter:
@@ -718,8 +1084,12 @@ class Reporter:
 
 
 def full_cfg(ex):
-    return {"rw": ex["rw"], "agf": [ex["agf"], ex["agf"]], "link_miu": [248, 248], "rcv_miu": [None, None],
-            "client": "A", "early": ex["early"]}
+    cfg = {"rw": ex["rw"], "agf": [ex["agf"], ex["agf"]], "link_miu": ex.get("link_miu", [248, 248]),
+           "rcv_miu": ex.get("rcv_miu", [None, None]), "client": ex.get("client", "A"), "early": ex.get("early", 0)}
+    for k in ("conns", "pre"):
+        if ex.get(k):
+            cfg[k] = ex[k]
+    return cfg
 
 
 def enumerate_histories(cfg, alphabet, depth, R, rep, st):
@@ -730,17 +1100,18 @@ def enumerate_histories(cfg, alphabet, depth, R, rep, st):
     idx = [0] * depth
     n = nontrivial = 0
     while True:
-        busy = {"A": 0, "B": 0}
+        busy = {}
         ops = []
         for i in idx:
             op = expand(alphabet[i])
             if op[0] == "b":
-                busy[op[1]] ^= 1
-                op = ["b", op[1], busy[op[1]]]
+                who = (op[1],) + tuple(op[3:])
+                busy[who] = busy.get(who, 0) ^ 1
+                op = ["b", op[1], busy[who]] + op[3:]
             ops.append(op)
         cut = None
         for j in range(1, depth):
-            if ops[j][0] in "srb" and ops[j - 1][0] in "srb" and ops[j][1] == "A" and ops[j - 1][1] == "B":
+            if ops[j][0] in "srbSR" and ops[j - 1][0] in "srbSR" and ops[j][1] == "A" and ops[j - 1][1] == "B":
                 cut = j
                 break
         if cut is not None:
@@ -790,58 +1161,91 @@ PROFILES = {  # op weights: turn, send, recv, busy, poll, oversize
 
 def random_cfg(rng):
     lm = [rng.choice([128, 129, 200, 248, 1000, 2175]) for _ in "AB"]
-    rcv = [rng.choice([None, 128, 129, 140, lm[i], rng.randrange(128, lm[i] + 1), 2175]) for i in (0, 1)]
-    rwmode = rng.random()
-    if rwmode < 0.15:
-        rw = [rng.choice([0, 1, 15]) for _ in "AB"]
-    elif rwmode < 0.35:
-        rw = [15, 15]
-    else:
-        rw = [rng.randrange(0, 16) for _ in "AB"]
-    return {"rw": rw, "agf": [int(rng.random() < 0.6), int(rng.random() < 0.6)], "link_miu": lm, "rcv_miu": rcv,
-            "client": rng.choice("AB"), "early": rng.choice([0] * 8 + [1, 2])}
+
+    def rcv():
+        return [rng.choice([None, 128, 129, 140, lm[i], rng.randrange(128, lm[i] + 1), 2175]) for i in (0, 1)]
+
+    def rws():
+        rwmode = rng.random()
+        if rwmode < 0.15:
+            return [rng.choice([0, 1, 15]) for _ in "AB"]
+        if rwmode < 0.35:
+            return [15, 15]
+        return [rng.randrange(0, 16) for _ in "AB"]
+    rcv0 = rcv()
+    rw0 = rws()
+    cfg = {"rw": rw0, "agf": [int(rng.random() < 0.6), int(rng.random() < 0.6)], "link_miu": lm, "rcv_miu": rcv0,
+           "client": rng.choice("AB"), "early": rng.choice([0] * 8 + [1, 2])}
+    if not cfg["early"] and rng.random() < 0.4:
+        # further data link connections on the same link: one more on the same listening SAP (same server end: the
+        # accepted sockets share the service access point), and / or one on another SAP with either end connecting
+        conns = []
+        if rng.random() < 0.75:
+            conns.append({"sap": 40, "client": cfg["client"], "rw": [rng.choice([1, 2, 3, 15, rng.randrange(0, 16)]) for _ in "AB"],
+                          "rcv_miu": rcv()})
+        if not conns or rng.random() < 0.5:
+            conns.append({"sap": 41, "client": rng.choice("AB"), "rw": [rng.choice([1, 2, 15, rng.randrange(0, 16)]) for _ in "AB"],
+                          "rcv_miu": rcv()})
+        cfg["conns"] = conns
+    return cfg
 
 
 def gen_walk(rng, cfg, steps):
     """operation list of one random walk, generated up-front (the executor is deterministic given cfg + ops)"""
     ops = []
-    busy = {"A": 0, "B": 0}
-    close_at = rng.randrange(steps) if rng.random() < 0.2 else -1
+    specs = [{"rcv_miu": cfg["rcv_miu"]}] + list(cfg.get("conns", ()))
+    nc = len(specs)
+    busy = {}
+    closes = {}
+    if rng.random() < (0.2 if nc == 1 else 0.5):
+        closes[rng.randrange(steps)] = (rng.randrange(nc), rng.choice("AB"))
+        if nc > 1 and rng.random() < 0.3:
+            closes[rng.randrange(steps)] = (rng.randrange(nc), rng.choice("AB"))
     join_at = rng.randrange(1, 40) if cfg["early"] == 2 else -1
-    miu_guess = {"A": 128, "B": 128}      # upper estimate of the MIU the peer of that end will announce
-    for i, e in enumerate("AB"):
-        r = cfg["rcv_miu"][i]
-        miu_guess[other(e)] = min(cfg["link_miu"][i], 128 if r is None else r)
+    miu_guess = []                        # per connection: upper estimate of the MIU the peer of that end will announce
+    for spec in specs:
+        g = {"A": 128, "B": 128}
+        for i, e in enumerate("AB"):
+            r = (spec.get("rcv_miu") or [None, None])[i]
+            g[other(e)] = min(cfg["link_miu"][i], 128 if r is None else r)
+        miu_guess.append(g)
     prof = None
     side = {"A": 1.0, "B": 1.0}
+    cw = [1.0] * nc
+
+    def with_conn(op, ci):
+        return op + [ci] if ci else op
     while len(ops) < steps:
         if prof is None or rng.random() < 0.01:
             prof = PROFILES[rng.choice(sorted(PROFILES))]
             side = {"A": rng.choice([0.2, 1.0, 1.0, 3.0]), "B": 1.0}
-        if len(ops) == close_at:
-            ops.append(["c", rng.choice("AB")])
+            cw = [rng.choice([0.2, 1.0, 1.0, 3.0]) for _ in range(nc)]
+        if len(ops) in closes:
+            ci, e = closes.pop(len(ops))
+            ops.append(with_conn(["c", e], ci))
             continue
         if len(ops) == join_at:
             ops.append(["J"])
             continue
         k = rng.choices("Tsrbpo", weights=prof)[0]
         e = "A" if rng.random() < side["A"] / (side["A"] + side["B"]) else "B"
+        ci = rng.choices(range(nc), weights=cw)[0] if nc > 1 else 0
         if k == "T":
             ops.append(["T"])
         elif k == "s":
-            m = miu_guess[e]
-            n = rng.choice([0, 1, 5, 6, 17, 120, m - 1, m, m, rng.randrange(5, m + 1)])
-            ops.append(["s", e, max(0, n)])
+            m = miu_guess[ci][e]
+            n = rng.choice([0, 1, 5, 6, 17, 120, m - 1, m, "M", rng.randrange(5, m + 1)])
+            ops.append(with_conn(["s", e, n if n == "M" else max(0, n)], ci))
         elif k == "o":
-            m = miu_guess[e]
-            ops.append(["s", e, m + rng.choice([1, 1, 2, 100, 3000])])
+            m = miu_guess[ci][e]
+            ops.append(with_conn(["s", e, rng.choice(["M+1", m + 1, m + 2, m + 100, m + 3000])], ci))
         elif k == "r":
-            ops.append(["r", e])
+            ops.append(with_conn(["r", e], ci))
         elif k == "b":
-            busy[e] ^= 1
-            ops.append(["b", e, busy[e]])
+            busy[(ci, e)] = busy.get((ci, e), 0) ^ 1
+            ops.append(with_conn(["b", e, busy[(ci, e)]], ci))
         else:
-            ops.append(["p", e, rng.choice(["recv", "send", "acks", "acks"])])
+            ops.append(with_conn(["p", e, rng.choice(["recv", "send", "acks", "acks"])], ci))
     return ops
 
 
@@ -858,6 +1262,23 @@ def run_lockstep(desc, R, rng):
     enumerate_histories(cfg, desc["alphabet"], desc["depth"], R, rep, st)
     if desc.get("depth2"):
         enumerate_histories(cfg, desc["alphabet2"], desc["depth2"], R, rep, st)
+    if desc.get("ex2"):
+        t1 = time.time()
+        st2 = Stats()
+        n2 = enumerate_histories(full_cfg(dict(desc["ex2"], agf=desc["ex2"].get("agf", 1))), desc["ex2_alphabet"],
+                                 desc["ex2_depth"], R, rep, st2)
+        for k, v in st2.items():
+            if k.startswith("max_"):
+                st.mx(k, v)
+            else:
+                st.inc(k, v)
+        # what the macro / multi-connection / wrap-position part observed, under names of its own
+        st.inc("ex2_histories_enumerated", n2)
+        for k in ("window_full_across_wrap", "send_wouldblock_window_across_wrap", "emsgsize_checked_at_miu_plus_1",
+                  "send_accepted_exactly_miu", "pdu_on_extra_connection", "close_drain_checked", "ns_wraps"):
+            st.inc("ex2_" + k, st2.get(k, 0))
+        st["ex2_wall_s"] = round(time.time() - t1, 1)
+        R.seen("exhaustive_configs", "macro " + json.dumps(desc["ex2"], sort_keys=True))
     R.exhaustive = False         # exhaustive only for the bounded histories of this configuration; the walks sample
     st["exhaustive_wall_s"] = round(time.time() - t0, 1)
     R.seen("exhaustive_configs", "rw=%s agf=%d early=%d" % (desc["ex"]["rw"], desc["ex"]["agf"], desc["ex"]["early"]))
@@ -1004,9 +1425,11 @@ class GateCond:
       * p_delay: the same, but only for a few yields (random schedule perturbation in the threaded runs).
     Nothing here decides a verdict."""
 
-    def __init__(self, real, rng=None, p_delay=0.0):
+    def __init__(self, real, rng=None, p_delay=0.0, until_entered=False):
         self._real = real
         self._rng, self._p = rng, p_delay
+        self._until_entered = until_entered
+        self.enters = self.delays_entered = 0
         self.mu = threading.Lock()
         self.calls = {}             # thread ident -> waits in the current call
         self.waiting = set()        # idents inside the real wait()
@@ -1018,6 +1441,7 @@ class GateCond:
     def __enter__(self):
         r = self._real.__enter__()
         self.calls[threading.get_ident()] = 0
+        self.enters += 1
         return r
 
     def __exit__(self, *a):
@@ -1063,8 +1487,21 @@ class GateCond:
                     self.parked.discard(me)
         elif self._p and self._rng.random() < self._p:
             self.delays += 1
-            k = self._rng.choice((1, 1, 2, 4))
-            self._give_up_lock(lambda: [time.sleep(0) for _ in range(k)])
+            if self._until_entered and self._rng.random() < 0.5:
+                # forced contention: the woken thread stays off the lock until another thread has entered a call on this
+                # Condition (a sender that may take the freed slot first), at most 200 yields (coverage only)
+                e0 = self.enters
+
+                def pause():
+                    for _ in range(200):
+                        if self.enters != e0:
+                            self.delays_entered += 1
+                            return
+                        time.sleep(0)
+                self._give_up_lock(pause)
+            else:
+                k = self._rng.choice((1, 1, 2, 4))
+                self._give_up_lock(lambda: [time.sleep(0) for _ in range(k)])
         return r
 
     def notified(self):
@@ -1153,6 +1590,8 @@ class WireWatch:
         self.first_seq = {}
         self.first_i_seq = {}
         self.frame_of = {}                       # I PDU payload -> frame number (payloads carry unique ids)
+        self.last_data_frame = 0                 # frame number of the last frame that carried anything but SYMM
+        self.on_first_disc = None
 
     def __call__(self, direction, data, _pdu=None):
         x = direction[0]
@@ -1170,7 +1609,10 @@ class WireWatch:
             st.inc("pdu_" + t)
             if t == "SYMM":
                 continue
+            if t == "DISC" and "DISC" not in self.first and self.on_first_disc:
+                self.on_first_disc(x)
             self.first.setdefault(t, self.frame)
+            self.last_data_frame = self.frame
             self.seq += 1
             self.first_seq.setdefault(t, self.seq)
             if t == "I":
@@ -1222,8 +1664,15 @@ def wait_info(th):
     return (getattr(g.f_code, "co_qualname", g.f_code.co_name), loc.get("timeout") is None, registered)
 
 
-def threaded_run(cfg, R, rng, st, budget=60.0):
-    """one run; returns list of (sig, what) violations; raises Inconclusive"""
+def threaded_run(cfg, R, rng, st, budget=60.0, obs=None):
+    """one run; returns list of (sig, what) violations; raises Inconclusive.
+    cfg["close"] = {"who": end, "after": k}: a further application thread calls close() on the socket of that end once
+    k I PDUs of that end were on the wire; then the delivery oracle's prefix part applies, plus: the peer's receivers
+    read until recv() reports the end and must have got every I PDU that was on the wire before the DISC.  Calls that
+    never return after the close() and exceptions (other than nfc.llcp.Error) out of calls that ran into it are not
+    part of the property statement: they end the run and are appended to `obs` with a mechanism name, not judged."""
+    obs = [] if obs is None else obs
+    n_obs0 = len(obs)
     import nfc.llcp
     import nfc.llcp.llc as LLC
     from vf.sim.llcpair import ThreadedPair
@@ -1240,30 +1689,40 @@ def threaded_run(cfg, R, rng, st, budget=60.0):
     state = {}                         # thread name -> (op, index[, message]) of the call in progress, None between calls
     nsend = cfg.get("senders", [1, 1])
     nrecv = cfg.get("receivers", [1, 1])
+    close = cfg.get("close")
     sends = {"A": {}, "B": {}}         # end -> sender thread -> [[message, start stamp, end stamp | None], ...]
     rcvd = {"A": {}, "B": {}}          # end -> receiver thread -> [message, ...]
     roles = {"setupS": (None, "setup"), "setupC": (None, "setup")}
     stamp = itertools.count()
     quota = {"A": cfg["n"][1], "B": cfg["n"][0]}       # recv() calls still to be started at that end
+    if close:
+        quota = {"A": 1 << 30, "B": 1 << 30}           # the receivers go on until recv() reports the end
     qlock = threading.Lock()
     gates = {}
     none_seen = {"n": 0}
     errors = []
+    close_errors = []                  # close runs: exceptions other than nfc.llcp.Error after close() was called
     marks = {}
     late = []
     over = {"checked": 0}
     socks = {}
+    outcome = {}
     c, s = cfg["client"], other(cfg["client"])
     connected = threading.Event()
     stop = threading.Event()
+    closing = threading.Event()
     threads = []
 
     def guarded(fn):
         def run(*a):
+            me = threading.current_thread().name
             try:
                 fn(*a)
             except BaseException as e:
-                errors.append((threading.current_thread().name, e))
+                if closing.is_set() and isinstance(e, L.Error):
+                    outcome[me] = "raised-" + errname(e)      # the connection went away under the call
+                    return
+                (close_errors if closing.is_set() else errors).append((me, e))
         return run
 
     def setopts(sock, i):
@@ -1290,6 +1749,8 @@ def threaded_run(cfg, R, rng, st, budget=60.0):
                     viol.append(("miu/oversize-accepted", "blocking send(%d bytes) returned %r, MIU %d" % (len(big), ok, miu)))
                 except L.Error as e:
                     if e.errno != errno.EMSGSIZE:
+                        if closing.is_set():
+                            raise
                         viol.append(("miu/oversize-wrong-error-%s" % errname(e), "send(len>MIU) raised %r" % e))
                     over["checked"] += 1
             if r.random() < 0.05:
@@ -1299,13 +1760,19 @@ def threaded_run(cfg, R, rng, st, budget=60.0):
             rec = [msg, next(stamp), None]
             recs.append(rec)
             state[me] = ("send", k, msg)
-            ok = sock.send(msg)
-            state[me] = None
+            try:
+                ok = sock.send(msg)
+            finally:
+                state[me] = None
             if ok is True:
                 rec[2] = next(stamp)
+            elif ok is False and closing.is_set():
+                outcome[me] = "returned-False"
+                return
             else:
                 errors.append((me, RuntimeError("send returned %r" % ok)))
                 return
+        outcome[me] = "done"
 
     def receiver(end, idx):
         me = threading.current_thread().name
@@ -1324,11 +1791,26 @@ def threaded_run(cfg, R, rng, st, budget=60.0):
             if cfg["busy"] and busy_left == 0 and r.random() < 0.06 and (cfg["greet"] or connected.is_set()):
                 sock.setsockopt(L.SO_RCVBSY, True)
                 busy_left = r.randrange(1, 6)
+                f0 = watch.frame                    # the RNR gets a few link frames to go out (frames, not time:
+                for _ in range(4000):               # an idle link keeps exchanging SYMM PDUs)
+                    if watch.frame >= f0 + 3 or stop.is_set():
+                        break
+                    time.sleep(0.0005)
+            if busy_left and not sock.poll("recv", 0):
+                # a busy receiver takes what is queued but does not block in recv(): a peer that honours RNR would
+                # (correctly) send nothing and both applications would wait for each other
+                sock.setsockopt(L.SO_RCVBSY, False)
+                busy_left = 0
             if r.random() < 0.1:
                 sock.poll("recv", 0.001)
             state[me] = ("recv", len(got))
-            m = sock.recv()
-            state[me] = None
+            try:
+                m = sock.recv()
+            finally:
+                state[me] = None
+            if m is None and closing.is_set():
+                outcome[me] = "returned-None"
+                return
             if m is None and nrecv["AB".index(end)] > 1 and none_seen["n"] < 100000:
                 # observation, not judged (no message is lost): with several threads in recv() on one socket a woken
                 # receiver may find the queue emptied by another one and gets None although nobody closed
@@ -1344,12 +1826,32 @@ def threaded_run(cfg, R, rng, st, budget=60.0):
         if busy_left:
             sock.setsockopt(L.SO_RCVBSY, False)
 
+    def closer(end, after):
+        me = threading.current_thread().name
+        if not connected.wait(40):
+            late.append(me)
+            return
+        t0 = time.time()
+        while watch.model.sent[end] < after and not stop.is_set() and time.time() - t0 < 20:
+            if not any(t.is_alive() for t in threads if roles.get(t.name) == (end, "send")):
+                break
+            time.sleep(0.001)
+        marks["close_called"] = watch.frame
+        marks["unread_at_close"] = len(watch.i_frame[other(end)]) - sum(len(v) for v in rcvd[end].values())
+        closing.set()
+        state[me] = ("close", 0)
+        try:
+            socks[end].close()
+        finally:
+            state[me] = None
+        outcome[me] = "returned"
+
     def install_gate(end, sock):
         if max(nsend) > 1:
             # coverage of the contended window wait (and a little more schedule variety at exactly that point)
-            tco = sock._tco
-            gates[end] = tco.send_token = GateCond(tco.send_token, random.Random(cfg["seed"] + ord(end)),
-                                                   cfg.get("p_wake_delay", 0.0))
+            tco = steer(sock, "_tco")
+            gates[end] = tco.send_token = GateCond(steer(tco, "send_token"), random.Random(cfg["seed"] + ord(end)),
+                                                   cfg.get("p_wake_delay", 0.0), until_entered=True)
 
     def server_setup():
         srv = L.Socket(pair.llc_of(s), L.DATA_LINK_CONNECTION)
@@ -1377,6 +1879,7 @@ def threaded_run(cfg, R, rng, st, budget=60.0):
         socks[c] = cli
         connected.set()
 
+    watch.on_first_disc = lambda x: marks.setdefault("delivered_at_disc", sum(len(v) for v in rcvd[other(x)].values()))
     pair.llc_of = lambda e: pair.a if e == "A" else pair.b
     listening, accepted_ev = threading.Event(), threading.Event()
     t_start = time.time()
@@ -1392,7 +1895,7 @@ def threaded_run(cfg, R, rng, st, budget=60.0):
         suspect = {}
         t_acc = time.time()
         while not accepted_ev.wait(0.05):
-            stall = detect_stall([ts, tc], state, watch, suspect)
+            stall = detect_stall([ts, tc], state, watch, suspect, st=st)
             if stall:
                 viol.append(stall)
                 break
@@ -1410,13 +1913,25 @@ def threaded_run(cfg, R, rng, st, budget=60.0):
                 name = "recv%s%s" % (end, j if nrecv[i] > 1 else "")
                 rcvd[end][name], roles[name] = [], (end, "recv")
                 threads.append(threading.Thread(target=guarded(receiver), args=(end, j), name=name, daemon=True))
+        if close and not viol:
+            roles["closer"] = (close["who"], "close")
+            threads.append(threading.Thread(target=guarded(closer), args=(close["who"], close["after"]), name="closer", daemon=True))
         for t in threads:
             t.start()
-        # monitor: structural stall detection, wall-clock only decides "inconclusive"
-        suspect = {}
+        # monitor: structural stall / loss detection, wall-clock only decides "inconclusive"
+        suspect, suspect_lost, suspect_close = {}, {}, {}
         while any(t.is_alive() for t in threads):
             time.sleep(0.02)
-            stall = detect_stall(threads + [tc], state, watch, suspect, roles=roles, rcvd=rcvd)
+            if closing.is_set():
+                blocked = detect_blocked_after_close(threads, roles, state, watch, suspect_close, close["who"], st)
+                if blocked:             # "every call returns" is not in the statement: observed, the run ends here
+                    obs.append(blocked + (cfg,))
+                    break
+                stall = None
+            else:
+                stall = detect_stall(threads + [tc], state, watch, suspect, roles=roles, rcvd=rcvd, st=st)
+                if not stall and not errors:
+                    stall = detect_lost(threads, roles, state, watch, sends, rcvd, suspect_lost, st)
             if stall:
                 viol.append(stall)
                 break
@@ -1425,6 +1940,18 @@ def threaded_run(cfg, R, rng, st, budget=60.0):
             if time.time() - t_start > budget:
                 where = {t.name: (state.get(t.name), wait_info(t)) for t in threads if t.is_alive()}
                 raise Inconclusive("threaded run watchdog (%ds): %r frame=%d" % (budget, where, watch.frame))
+        if close and not any(t.is_alive() for t in threads if roles.get(t.name) == (other(close["who"]), "recv")):
+            # close class: the receivers of the closing end's peer have all returned (recv() reported the end to the last
+            # of them; with two receivers one may have got a benign None earlier): whatever is still queued is read here
+            y = other(close["who"])
+            try:
+                while socks[y].poll("recv", 0):
+                    msg = socks[y].recv()
+                    if msg is None:
+                        break
+                    rcvd[y].setdefault("harness", []).append(msg)
+            except L.Error:
+                pass
         link_died = not (pair.ta.is_alive() and pair.tb.is_alive())
         if errors and not link_died:
             # a live link keeps exchanging (at least SYMM) frames; if none flow any more the link has ended and the
@@ -1459,7 +1986,11 @@ def threaded_run(cfg, R, rng, st, budget=60.0):
         if isinstance(e, L.Error):
             viol.append(("api/threaded-%s/unexpected-%s" % (name[:4], errname(e)), "%s raised %r on an open connection" % (name, e)))
         else:
+            not_steering(e)
             viol.append(("escape/threaded-%s/%s" % (name[:4], exc_sig(e)), "%s raised %r" % (name, e)))
+    for name, e in close_errors:
+        not_steering(e)
+        obs.insert(0, ("escape/threaded-close/%s/%s" % (name[:4], exc_sig(e)), "%s raised %r after close() was called" % (name, e), cfg))
     if watch.undecodable:
         viol.append(("wire/undecodable", "%d frames rejected by the reference decoder" % watch.undecodable))
     stalled = any(v[0].startswith("stall/") for v in viol)
@@ -1467,7 +1998,7 @@ def threaded_run(cfg, R, rng, st, budget=60.0):
         got = sum(len(v) for v in rcvd[other(x)].values())
         st.inc("threaded_messages_delivered", got)
         st.inc("recv_compared", got)
-        complete = not stalled and not errors
+        complete = not stalled and not errors and not close
         bad = judge_delivery("%s>%s" % (x, other(x)), sends[x], rcvd[other(x)], complete)
         if bad:
             viol.append(("deliver/" + bad[0], bad[1]))
@@ -1476,12 +2007,27 @@ def threaded_run(cfg, R, rng, st, budget=60.0):
         refused_on_wire = [d for d in watch.i_data[x] if len(d) >= 5 and d[1:5] >= (1000000).to_bytes(4, "big")]
         if refused_on_wire:
             viol.append(("miu/refused-message-transmitted", "%d oversize messages on the wire" % len(refused_on_wire)))
+    if close and result == "done" and not viol:
+        # close class (a): the peer of the closing end has called recv() until it reported the end; every I PDU that
+        # was on the wire before the DISC must have been returned
+        x = close["who"]
+        y = other(x)
+        ended = [n for n, role in roles.items() if role == (y, "recv") and outcome.get(n, "").startswith(("returned-None", "raised-"))]
+        if "DISC" in watch.first and ended and len(ended) == nrecv["AB".index(y)]:
+            got = sum(len(v) for v in rcvd[y].values())
+            st.inc("thr_close_drain_checked")
+            st.inc("thr_close_drain_undelivered_at_disc", int(marks.get("delivered_at_disc", got) < watch.model.sent[x]))
+            if got < watch.model.sent[x]:
+                viol.append(("deliver/lost-after-peer-close", "%s called close(); %d I PDUs were on the wire before the DISC, "
+                             "the peer's receivers got %d before recv() reported the end" % (x, watch.model.sent[x], got)))
     st.inc("recv_none_on_open_connection", none_seen["n"])
     for g in gates.values():
         st.inc("woken_window_full_again", g.rewaits)
+        st.inc("thr_woken_window_full_again", g.rewaits)
         st.inc("threaded_rewaits", g.rewaits)
         st.inc("window_wait_wakeups", g.wakeups)
         st.inc("wake_delays_injected", g.delays)
+        st.inc("wake_delays_until_another_sender_entered", g.delays_entered)
         st.inc("gate_unavailable", g.unavailable)
     st.mx("max_sender_threads", max(nsend))
     st.mx("max_receiver_threads", max(nrecv))
@@ -1496,16 +2042,101 @@ def threaded_run(cfg, R, rng, st, budget=60.0):
         st.inc("threaded_runs_completed")
         st.inc("multi_sender_runs_completed", int(max(nsend) > 1))
         st.inc("multi_receiver_runs_completed", int(max(nrecv) > 1))
+        if close:
+            st.inc("thr_close_runs_completed")
+            st.inc("thr_close_runs_with_observation", int(len(obs) > n_obs0))
+            st.inc("thr_close_unread_at_close", int(marks.get("unread_at_close", 0) > 0))
+            for name, how in outcome.items():
+                st.inc("thr_close_outcome_%s_%s" % (name[:4], how))
     return viol
 
 
-def detect_stall(threads, state, watch, suspect, settle=40, roles=None, rcvd=None):
+def registered_waiter(t, state, infos):
+    """wait_info of a live thread that is inside an application call, else None (cached per monitor sample)"""
+    if t.name not in infos:
+        infos[t.name] = wait_info(t) if t.is_alive() and state.get(t.name) is not None else None
+    return infos[t.name]
+
+
+def detect_lost(threads, roles, state, watch, sends, rcvd, suspect, st, settle=60):
+    """lost message, decided structurally: every sender thread of an end has returned (a blocking send() returns when
+    its I PDU was handed to the link, so nothing accepted is still queued), the wire has carried nothing but SYMM PDUs
+    for `settle` frames, every live receiver thread of the peer is a registered waiter of the untimed wait in recv()
+    (nobody is about to deliver anything) and fewer messages were delivered than accepted.  Seen twice in a row with
+    identical counts.  No clock involved: frames keep flowing on an idle link."""
+    infos = {}
+    st.inc("lost_checks_evaluated")
+    for x in "AB":
+        y = other(x)
+        snd = [t for t in threads if roles.get(t.name) == (x, "send")]
+        rcv = [t for t in threads if roles.get(t.name) == (y, "recv") and t.is_alive()]
+        if not snd or any(t.is_alive() for t in snd) or not rcv:
+            suspect.pop(x, None)
+            continue
+        st.inc("lost_checks_armed")
+        acc = sum(1 for recs in sends[x].values() for rec in recs if rec[2] is not None)
+        got = sum(len(v) for v in rcvd[y].values())
+        ok = got < acc and watch.frame - watch.last_data_frame >= settle
+        for t in rcv:
+            i = registered_waiter(t, state, infos) if ok else None
+            if i is None or not i[1] or i[2] is not True or not i[0].endswith("TransmissionControlObject.recv"):
+                ok = False
+                break
+        if not ok:
+            suspect.pop(x, None)
+            continue
+        key = (acc, got, watch.last_data_frame)
+        if suspect.get(x) == key:
+            on_wire = len(watch.i_frame[x])
+            return ("deliver/lost-at-quiescence/%s" % ("transmitted" if on_wire >= acc else "never-transmitted"),
+                    "%s>%s: all sender threads have returned (%d messages accepted, %d I PDUs on the wire), %d delivered, "
+                    "every receiver thread waits in recv() as a registered waiter and the wire has carried only SYMM PDUs "
+                    "for %d frames" % (x, y, acc, on_wire, got, watch.frame - watch.last_data_frame))
+        suspect[x] = key
+    return None
+
+
+def detect_blocked_after_close(threads, roles, state, watch, suspect, who, st, settle=60):
+    """close class (b), 'every call returns': after close() was called on end `who`, EVERY live application thread sits
+    inside a call as a registered waiter of an untimed wait (so no thread is left that could notify another one: only
+    the link run loops could, and they act on received PDUs only) while the wire has carried only SYMM PDUs for `settle`
+    frames (the DISC/DM exchange, if any, is long over).  Seen twice in a row.  The first such thread is named."""
+    live = [t for t in threads if t.is_alive()]
+    if not live or watch.frame - watch.last_data_frame < settle:
+        suspect.clear()
+        return None
+    infos = {}
+    for t in live:
+        i = registered_waiter(t, state, infos)
+        if i is None or not i[1] or i[2] is not True:
+            suspect.clear()
+            return None
+    st.inc("close_stall_checks_armed")
+    key = tuple(sorted((t.name, state.get(t.name)[:2], infos[t.name][0]) for t in live)) + (watch.last_data_frame,)
+    if suspect.get("all") != key:
+        suspect["all"] = key
+        return None
+    order = {"close": 0, "send": 1, "recv": 2}
+    t = min(live, key=lambda t: (order.get(roles.get(t.name, (None, "?"))[1], 3), t.name))
+    end, kind = roles.get(t.name, (None, "?"))
+    i = infos[t.name]
+    return ("stall/blocked-after-close/%s/%s/%s/%s" % (
+        "local" if end == who else "peer", {"close": "closer"}.get(kind, kind),
+        ".".join(i[0].split(".")[-2:]), "disc-on-wire" if "DISC" in watch.first else "no-disc-on-wire"),
+        "%s called close(); every live application thread is a registered waiter of an untimed wait (%s) although the "
+        "wire has carried only SYMM PDUs for %d frames; e.g. %s (end %s) inside %s" % (
+            who, ", ".join(sorted(x.name for x in live)), watch.frame - watch.last_data_frame, t.name, end, i[0]))
+
+
+def detect_stall(threads, state, watch, suspect, settle=40, roles=None, rcvd=None, st=None):
     """lost wake-up: thread in an untimed wait, still registered as waiter (nobody notified it), while the wire log
     shows - at least `settle` frames ago - that what it waits for has happened. Checked twice in a row.
     With several sender (receiver) threads on one socket a free window slot (a queued message) may be meant for
     another thread that is about to take it: then only the situation in which EVERY live sender (receiver) thread
     of that end is a registered waiter and the wire shows nothing outstanding (more messages than all of them
-    received) counts - nothing but a notification could end it."""
+    received) counts - nothing but a notification could end it.
+    A sender that waits for the window while the peer's last RR/RNR on the wire says "busy" is not judged: a sender
+    that honours RNR may hold back although the window is open."""
     m = watch.model
     roles = roles or {}
     infos = {}
@@ -1536,6 +2167,8 @@ def detect_stall(threads, state, watch, suspect, settle=40, roles=None, rcvd=Non
         if info is None or not info[1] or info[2] is not True:
             suspect.pop(t.name, None)
             continue
+        if st is not None:
+            st.inc("stall_checks_armed")          # a registered waiter of an untimed wait was compared with the wire
         qual = info[0]
         end = roles.get(t.name, (t.name[-1],))[0]
         op, k = cur[0], cur[1]
@@ -1549,7 +2182,11 @@ def detect_stall(threads, state, watch, suspect, settle=40, roles=None, rcvd=Non
         elif op == "send" and qual.endswith("DataLinkConnection.send"):
             # waits for the send window to open; the wire shows acknowledgements that opened it
             mates = team(end, "send")
-            if len(mates) <= 1:
+            if watch.ann_busy[other(end)]:
+                is_open = False
+                if st is not None:
+                    st.inc("stall_check_skipped_peer_busy")
+            elif len(mates) <= 1:
                 is_open = m.established and m.sent[end] == k and m.outstanding(end) < m.rw.get(other(end), 0)
             else:
                 is_open = (m.established and m.rw.get(other(end), 0) > 0 and m.outstanding(end) == 0
@@ -1600,6 +2237,18 @@ def random_gated_cfg(rng):
             "msgs": rng.randrange(1, 4)}             # (recv) messages that arrive while the receivers are parked
 
 
+def random_gated_close_cfg(rng):
+    rw = rng.choice([1, 1, 2, 3])
+    mode = rng.choice(["window", "window", "inflight"])
+    return {"kind": "close", "rw": rw, "rw_back": rng.choice([1, 2, 15]), "end": rng.choice("AB"), "client": rng.choice("AB"),
+            "agf": [int(rng.random() < 0.5), int(rng.random() < 0.5)],
+            "pre": rng.choice([0, 1, 2, 5, 14, 15, 16]), "who": rng.choice(["local", "peer"]), "mode": mode,
+            "waiters": rng.randrange(1, 4), "per_waiter": rng.choice([1, 1, 2]),
+            "s_receivers": rng.choice([0, 0, 1, 2]),     # threads blocked in recv() at the sending end
+            "r_receivers": rng.choice([0, 0, 1, 2]),     # ... at the other end (mode inflight only: they have read everything)
+            "unread": rng.choice([0, 1])}                # mode window: the receiving application has read the messages or not
+
+
 class Gated:
     """One deterministic scenario on a lock-step pair (the harness turns the link; application threads block for real).
     send: the window the peer announced (RW 1..3) is full, `waiters` threads sit in blocking send() calls; the
@@ -1634,6 +2283,10 @@ class Gated:
         self.ctr = 0
         self.moved = 0
         self.stop = False
+        self.closing = False             # close class: set right before close() is called
+        self.outcome = {}                # close class: how the call of a worker ended
+        self.obs = []                    # close class: (mechanism, text) observed but not demanded by the statement
+        self.close_errors = []           # close class: exceptions other than nfc.llcp.Error out of calls that ran into the close
 
     # -- workers ------------------------------------------------------------------------------------------
     def msg(self):
@@ -1650,11 +2303,18 @@ class Gated:
                     recs.append(rec)
                     ok = self.S.send(m, flags)
                     if ok is not True:
+                        if ok is False and self.closing:       # close class: the connection went away under the call
+                            self.outcome[name] = "returned-False"
+                            return
                         self.errors.append((name, RuntimeError("send returned %r" % ok)))
                         return
                     rec[2] = next(self.stamp)
+                self.outcome[name] = "done"
             except BaseException as e:
-                self.errors.append((name, e))
+                if self.closing and isinstance(e, self.L.Error):
+                    self.outcome[name] = "raised-" + errname(e)
+                    return
+                (self.close_errors if self.closing else self.errors).append((name, e))
         t = self.threads[name] = threading.Thread(target=run, name=name, daemon=True)
         t.start()
         return t
@@ -1678,6 +2338,46 @@ class Gated:
         t.start()
         return t
 
+    def spawn_close_receiver(self, name, sock):
+        """close class: recv() until it returns None or raises (the end of the connection)"""
+        got = self.rcvd.setdefault(name, [])
+
+        def run():
+            try:
+                while True:
+                    m = sock.recv()
+                    if m is None:
+                        self.outcome[name] = "returned-None"
+                        if self.closing:
+                            return
+                        self.nones.append(name)
+                        if len(self.nones) > 50:
+                            return
+                    else:
+                        got.append(m)
+            except BaseException as e:
+                if self.closing and isinstance(e, self.L.Error):
+                    self.outcome[name] = "raised-" + errname(e)
+                    return
+                (self.close_errors if self.closing else self.errors).append((name, e))
+        t = self.threads[name] = threading.Thread(target=run, name=name, daemon=True)
+        t.start()
+        return t
+
+    def spawn_closer(self, sock):
+        def run():
+            try:
+                sock.close()
+                self.outcome["closer"] = "returned"
+            except BaseException as e:
+                if isinstance(e, self.L.Error):
+                    self.outcome["closer"] = "raised-" + errname(e)
+                    return
+                self.close_errors.append(("closer", e))
+        t = self.threads["closer"] = threading.Thread(target=run, name="closer", daemon=True)
+        t.start()
+        return t
+
     def settle(self, gate=None):
         """until every live worker sits in a Condition wait (or is parked by the gate)"""
         t0 = time.time()
@@ -1698,6 +2398,7 @@ class Gated:
             try:
                 self.lp.turn(e)
             except Exception as ex:
+                not_steering(ex)
                 self.viol.append(("escape/turn/%s" % exc_sig(ex), "link turn of %s raised %r" % (e, ex)))
                 raise StopIteration
             self.moved += self.watch.frame - f
@@ -1720,6 +2421,8 @@ class Gated:
         try:
             if self.cfg["kind"] == "recv":
                 self.run_recv()
+            elif self.cfg["kind"] == "close":
+                self.run_close()
             else:
                 self.run_send()
         except StopIteration:
@@ -1728,15 +2431,19 @@ class Gated:
             for g in self.gates:
                 g.hold = False
                 g.go.set()
-        return self.verdicts()
+        try:
+            return self.verdicts()
+        finally:
+            if self.cfg["kind"] == "close":
+                self.release_blocked()
 
     gates = ()
 
     def run_send(self):
         cfg, st, m, x = self.cfg, self.st, self.watch.model, self.x
         rw = cfg["rw"]
-        tco = self.S._tco
-        gate = tco.send_token = GateCond(tco.send_token)
+        tco = steer(self.S, "_tco")
+        gate = tco.send_token = GateCond(steer(tco, "send_token"))
         self.gates = [gate]
         # 1. earlier traffic, then the window is filled and stays unacknowledged (the receiver does not call recv())
         self.spawn_sender("fill", [self.msg() for _ in range(cfg["pre"] + rw)])
@@ -1813,8 +2520,8 @@ class Gated:
 
     def run_recv(self):
         cfg, st, x = self.cfg, self.st, self.x
-        tco = self.R._tco
-        gate = tco.recv_ready = GateCond(tco.recv_ready)
+        tco = steer(self.R, "_tco")
+        gate = tco.recv_ready = GateCond(steer(tco, "recv_ready"))
         self.gates = [gate]
         total = cfg["pre"] % 4 + cfg["msgs"] + 2
         nones = self.nones = []
@@ -1872,6 +2579,135 @@ class Gated:
                 self.pump()
         st.inc("recv_none_on_open_connection", len(nones))
 
+    def run_close(self):
+        """close class: close() by the sending end ('local') or by its peer ('peer': the DISC arrives) while 1-3 blocking
+        send() calls sit on a full window (mode 'window') or one blocking send() has its I PDU still in the send queue
+        (mode 'inflight'), with 0-2 threads blocked in recv() on either end.  Judged (what the statement demands): nothing
+        is delivered twice or out of order, the window / sequence rules hold on the wire up to the DISC, and after a local
+        close the peer's recv() still gets every I PDU that was on the wire before the DISC.  Observed and counted with a
+        mechanism name, not judged: calls that never return (at link quiescence a worker is still a registered waiter of
+        an untimed wait) and exceptions other than nfc.llcp.Error out of calls that run into the close."""
+        cfg, st, m, x = self.cfg, self.st, self.watch.model, self.x
+        rw, mode, who = cfg["rw"], cfg["mode"], cfg["who"]
+        self.nones = []
+        tco = steer(self.S, "_tco")
+        gate = tco.send_token = GateCond(steer(tco, "send_token"))      # observation only: who waits for the window
+        self.gates = [gate]
+        # 1. earlier traffic; mode 'window': then the window is filled and stays unacknowledged (nobody calls recv())
+        nfill = cfg["pre"] + (rw if mode == "window" else 0)
+        if nfill:
+            self.spawn_sender("fill", [self.msg() for _ in range(nfill)])
+            for _ in range(4 * nfill + 8):
+                self.settle()
+                if not self.threads["fill"].is_alive():
+                    break
+                self.pump()
+                self.recv_main(cfg["pre"] - len(self.rcvd["main"]))
+            self.pump()
+            self.recv_main(cfg["pre"] - len(self.rcvd["main"]))
+            if mode != "window":
+                self.pump()
+            if self.threads["fill"].is_alive() or m.outstanding(x) != (rw if mode == "window" else 0):
+                st.inc("gated_window_not_filled")
+                return self.drain()
+        # 2. blocking senders queue up on the full window / threads block in recv() on both ends
+        for i in range(cfg["waiters"] if mode == "window" else 0):
+            self.spawn_sender("wait%d" % i, [self.msg() for _ in range(cfg["per_waiter"])])
+            self.settle()
+        if mode == "window" and len(gate.waiting) != cfg["waiters"]:
+            st.inc("gated_waiters_not_parked")
+            return self.drain()
+        for i in range(cfg["s_receivers"]):
+            self.spawn_close_receiver("srcv%d" % i, self.S)
+            self.settle()
+        for i in range(cfg["r_receivers"] if mode != "window" else 0):
+            self.spawn_close_receiver("rrcv%d" % i, self.R)
+            self.settle()
+        if mode == "inflight":
+            # a blocking send() whose I PDU is in the send queue; the link has not collected it yet
+            self.spawn_sender("infl", [self.msg()])
+            self.settle()
+            info = wait_info(self.threads["infl"]) if self.threads["infl"].is_alive() else None
+            st.inc("gated_close_inflight_parked", int(bool(info and info[0].endswith("TransmissionControlObject.send"))))
+        blocked_before = {t.name for t in self.live()}
+        if not cfg.get("unread", 1):
+            # the closing end's application has read everything (the acknowledgements have not been transmitted yet)
+            self.recv_main(1 << 30)
+        # 3. close(); its wait for the DM is served by the link turns below
+        self.closing = True
+        self.spawn_closer(self.S if who == "local" else self.R)
+        self.settle()
+        first = other(x) if who == "peer" else x          # the DISC travels before anything else the other end has
+        idle = 0
+        for rnd in range(80):
+            self.moved = 0
+            for e in ((first, other(first)) if rnd == 0 else "AB"):
+                f = self.watch.frame
+                try:
+                    self.lp.turn(e)
+                except Exception as ex:
+                    not_steering(ex)
+                    self.viol.append(("escape/turn/%s/after-close" % exc_sig(ex), "link turn of %s raised %r" % (e, ex)))
+                    raise StopIteration
+                self.moved += self.watch.frame - f
+                self.settle()
+            if self.watch.bad or not self.live():
+                break
+            idle = 0 if self.moved else idle + 1
+            if idle >= 3:
+                break
+        st.inc("gated_close_scenarios")
+        st.inc("gated_close_%s_%s" % (who, mode))
+        # 4. "every call returns" is NOT part of the property statement: a worker that is still a registered waiter of an
+        #    untimed wait now (link quiescent, DISC/DM exchange over) is an observation with a mechanism name, not a verdict
+        undecided = []
+        for t in self.live():
+            info = wait_info(t)
+            if info and info[1] and info[2] is True:
+                role = t.name.rstrip("0123456789")
+                self.obs.append(("stall/blocked-after-close/%s/%s/%s/%s" % (
+                    who, role, ".".join(info[0].split(".")[-2:]), "disc-on-wire" if "DISC" in self.watch.first else "no-disc-on-wire"),
+                                 "%s close(): %s still sits in an untimed wait inside %s as a registered waiter although the "
+                                 "DISC/DM exchange is over and the link is quiescent (outcomes so far: %r)" % (
+                                     who, t.name, info[0], self.outcome)))
+            else:
+                undecided.append(t.name)
+        if undecided:
+            raise Inconclusive("gated close scenario: workers %r neither returned nor blocked" % undecided)
+        for name in blocked_before:
+            if not self.threads[name].is_alive():
+                st.inc("gated_close_blocked_calls_returned")
+                st.inc("gated_close_returned_" + name.rstrip("0123456789"))
+        # 5. the statement's part: after a local close the peer can still read what was transmitted before the DISC
+        if who == "local" and "DISC" in self.watch.first and not self.viol and not self.watch.bad:
+            try:
+                self.recv_main(1 << 30)
+            except self.L.Error:
+                pass                    # a receiver thread of that end has consumed the disconnect indication
+            got = sum(len(v) for v in self.rcvd.values())
+            st.inc("gated_close_drain_checked")
+            st.inc("gated_close_drain_messages", got)
+            if got < m.sent[x]:
+                self.viol.append(("deliver/lost-after-peer-close", "%s called close(); %d I PDUs were on the wire before "
+                                  "the DISC, the peer's recv() returned %d" % (x, m.sent[x], got)))
+
+    def release_blocked(self):
+        """end of a close scenario: calls that never returned are ended by shutting both transmission control objects
+        down on the harness side (what the link's termination would do), so that no worker thread is left behind"""
+        import nfc.llcp.tco as TCO
+        for sock in (self.S, self.R):
+            try:
+                tco = steer(sock, "_tco")
+                with tco.lock:
+                    TCO.TransmissionControlObject.close(tco)
+                    for name in ("send_token", "acks_ready"):
+                        getattr(tco, name).notify_all()
+            except Exception:
+                self.st.inc("gated_close_release_failed")
+        for t in self.live():
+            t.join(5)
+        self.st.inc("gated_close_threads_left_behind", len(self.live()))
+
     def drain(self):
         """the receiver takes everything, the link turns until all senders returned; a round without any PDU and any
         recv() leaves the state unchanged (single driving thread, workers all blocked)"""
@@ -1905,14 +2741,26 @@ class Gated:
     def verdicts(self):
         L, x = self.L, self.x
         viol = [("window/" + clause, text) for clause, text in self.watch.bad] + self.viol
+        esc = []
+        tag = "gated-close-before-close/" if self.cfg["kind"] == "close" else "gated-"
         for name, e in self.errors:
             if isinstance(e, L.Error):
-                viol.append(("api/gated-%s/unexpected-%s" % (name[:4], errname(e)), "%s raised %r on an open connection" % (name, e)))
+                esc.append(("api/%s%s/unexpected-%s" % (tag, name[:4], errname(e)), "%s raised %r on an open connection" % (name, e)))
             else:
-                viol.append(("escape/gated-%s/%s" % (name[:4], exc_sig(e)), "%s raised %r" % (name, e)))
+                not_steering(e)
+                esc.append(("escape/%s%s/%s" % (tag, name[:4], exc_sig(e)), "%s raised %r" % (name, e)))
+        viol = viol + esc
+        if self.cfg["kind"] == "close":
+            # what calls that run into a close() raise is not part of the property statement: observed, not judged
+            for name, e in self.close_errors:
+                not_steering(e)
+                self.obs.insert(0, ("escape/gated-close/%s/%s" % (name[:4], exc_sig(e)), "%s raised %r" % (name, e)))
+            for sig, _ in self.obs:
+                self.st.inc("close_obs:" + sig)
         if self.watch.undecodable:
             viol.append(("wire/undecodable", "%d frames rejected by the reference decoder" % self.watch.undecodable))
-        complete = not viol and not [t for t in self.live() if t.name.startswith(("fill", "wait", "late", "snd"))]
+        complete = (not viol and not self.closing
+                    and not [t for t in self.live() if t.name.startswith(("fill", "wait", "late", "snd"))])
         got = sum(len(v) for v in self.rcvd.values())
         self.st.inc("recv_compared", got)
         self.st.inc("gated_messages_delivered", got)
@@ -1922,17 +2770,25 @@ class Gated:
         elif complete:
             self.st.inc("quiescence_equal_checked")
             self.st.inc("gated_scenarios_completed")
+        elif self.closing and not viol:
+            self.st.inc("gated_close_scenarios_completed")
+            for name, how in self.outcome.items():
+                self.st.inc("gated_close_outcome_%s_%s" % (name.rstrip("0123456789"), how))
         return viol
 
 
-def gated_run(cfg, st):
+def gated_run(cfg, st, obs=None):
     g = Gated(cfg, st)
     st.inc("gated_scenarios")
     st.inc("gated_scenarios_" + cfg["kind"])
-    return g.run()
+    try:
+        return g.run()
+    finally:
+        if obs is not None:
+            obs.extend((sig, what, cfg) for sig, what in g.obs)
 
 
-def random_thread_cfg(rng, desc, greet, multi=False):
+def random_thread_cfg(rng, desc, greet, multi=False, close=False):
     lm = [rng.choice([128, 248, 1000, 2175]) for _ in "AB"]
     n_lo, n_hi = desc["n_lo"], desc["n_hi"]
     if multi:
@@ -1942,51 +2798,76 @@ def random_thread_cfg(rng, desc, greet, multi=False):
         rng.shuffle(ns)
         cfg = random_thread_cfg(rng, desc, greet)
         cfg.update(senders=ns, receivers=[rng.choice([1, 1, 2]) for _ in "AB"],
-                   p_wake_delay=rng.choice([0.0, 0.3, 0.6]))
+                   p_wake_delay=rng.choice([0.3, 0.6, 0.9]))
         for i in (0, 1):
             if ns[1 - i] > 1:
                 cfg["rw"][i] = rng.choice([1, 1, 2, 3])
         return cfg
-    return {"rw": [rng.choice([1, 1, 2, 3, 7, 15, rng.randrange(1, 16)]) for _ in "AB"],
-            "agf": [int(rng.random() < 0.6), int(rng.random() < 0.6)], "link_miu": lm,
-            "rcv_miu": [rng.choice([None, 128, 200, lm[i]]) for i in (0, 1)],
-            "client": rng.choice("AB"), "greet": int(greet), "busy": int(rng.random() < 0.7),
-            "n": [rng.randrange(n_lo, n_hi + 1), rng.randrange(n_lo, n_hi + 1)],
-            "p_yield": rng.choice([0.005, 0.02, 0.05]), "p_sleep": rng.choice([0.0, 0.001, 0.003]),
-            "seed": rng.randrange(1 << 30)}
+    cfg = {"rw": [rng.choice([1, 1, 2, 3, 7, 15, rng.randrange(1, 16)]) for _ in "AB"],
+           "agf": [int(rng.random() < 0.6), int(rng.random() < 0.6)], "link_miu": lm,
+           "rcv_miu": [rng.choice([None, 128, 200, lm[i]]) for i in (0, 1)],
+           "client": rng.choice("AB"), "greet": int(greet), "busy": int(rng.random() < 0.7),
+           "n": [rng.randrange(n_lo, n_hi + 1), rng.randrange(n_lo, n_hi + 1)],
+           "p_yield": rng.choice([0.005, 0.02, 0.05]), "p_sleep": rng.choice([0.0, 0.001, 0.003]),
+           "seed": rng.randrange(1 << 30)}
+    if close:
+        # close class: one end calls close() while 1-3 blocking senders of either end work against a small window and
+        # the receivers are blocked in recv(); `quiet`: the closing end receives nothing (no traffic towards it, no
+        # receiver threads there), so that its close() finds an empty receive queue
+        who = rng.choice("AB")
+        i, j = "AB".index(who), 1 - "AB".index(who)
+        quiet = rng.random() < 0.6
+        ns, nr = [rng.randrange(1, 4), rng.randrange(1, 4)], [rng.choice([1, 1, 2]), rng.choice([1, 1, 2])]
+        if quiet:
+            cfg["n"][j] = 0
+            ns[j], nr[i] = 0, 0
+        cfg["rw"] = [rng.choice([1, 1, 2, 3]) for _ in "AB"]
+        cfg.update(senders=ns, receivers=nr, greet=0, busy=0,
+                   close={"who": who, "after": rng.choice([1, 5, 17, 40]), "quiet": int(quiet)})
+    return cfg
 
 
 def run_threaded(desc, R, rng):
     from vf.core import contracts
     contracts.install_pdu_length_contract()
     c0 = contracts.COUNTS.get("pdu_len_contract", 0)
-    st = Stats()
-    for i in range(desc.get("gated", 0)):
-        cfg = random_gated_cfg(rng)
+    st = Stats()                # forced schedules (gated)
+    ts = Stats()                # random threaded runs: counters of their own, so that each monitor has to observe traffic
+    ngated, nclose = desc.get("gated", 0), desc.get("gated_close", 0)
+    obs = []                    # close class: mechanisms observed that the property statement does not rule out
+    for i in range(ngated + nclose):
+        cfg = random_gated_cfg(rng) if i < ngated else random_gated_close_cfg(rng)
         key = ("gated", json.dumps(cfg, sort_keys=True))
         try:
-            viol = gated_run(cfg, st)
-        except Inconclusive as e:
-            R.inconc(str(e))
+            viol = gated_run(cfg, st, obs)
+        except (Inconclusive, AttributeError, KeyError) as e:
+            if not isinstance(e, Inconclusive) and not steering_fault(e):
+                raise
+            R.inconc("gated scenario: %s: %s" % (type(e).__name__, e))
             R.case(key, nontrivial=False)
             continue
         R.case(key)
-        if i == 0:
+        if i in (0, ngated):
             R.sample({"gated_cfg": cfg})
         for sig, what in viol[:1]:
             R.violation(sig, what, {"kind": "gated", "cfg": cfg})
     t0 = time.time()
-    for i in range(desc["runs"]):
+    for i in range(desc["runs"] + desc.get("close_runs", 0)):
         if time.time() - t0 > desc["budget"]:
-            st.inc("threaded_runs_skipped_budget")      # coverage only, never a verdict
+            ts.inc("threaded_runs_skipped_budget")      # coverage only, never a verdict
             continue
-        cfg = random_thread_cfg(rng, desc, greet=(i % 6 == desc.get("greet_run", -1)), multi=(i % 6 in desc.get("multi_runs", ())))
-        st.inc("threaded_runs")
-        st.inc("multi_sender_runs", int("senders" in cfg))
+        is_close = i >= desc["runs"]
+        cfg = random_thread_cfg(rng, desc, greet=(i % 6 == desc.get("greet_run", -1)) and not is_close,
+                                multi=(i % 6 in desc.get("multi_runs", ())) and not is_close, close=is_close)
+        ts.inc("threaded_runs")
+        ts.inc("multi_sender_runs", int("senders" in cfg and not is_close))
+        ts.inc("thr_close_runs", int(is_close))
         try:
-            viol = threaded_run(cfg, R, rng, st)
-        except Inconclusive as e:
-            R.inconc(str(e))
+            viol = threaded_run(cfg, R, rng, ts, obs=obs)
+        except (Inconclusive, AttributeError, KeyError) as e:
+            if not isinstance(e, Inconclusive) and not steering_fault(e):
+                raise
+            R.inconc("threaded run: %s: %s" % (type(e).__name__, e))
             R.case(("thr", json.dumps(cfg, sort_keys=True)), nontrivial=False)
             continue
         R.case(("thr", json.dumps(cfg, sort_keys=True)))
@@ -1994,11 +2875,23 @@ def run_threaded(desc, R, rng):
             R.sample({"threaded_cfg": cfg})
         for sig, what in viol[:1]:              # first violation of a run; the rest are consequences
             R.violation(sig, what, {"kind": "threaded", "cfg": cfg})
-    for k, v in st.items():
-        if k.startswith("max_"):
-            R.max(k, v)
-        else:
-            R.count(k, v)
+    sampled = set()
+    for sig, what, cfg in obs:
+        R.seen("close_class_observations_not_judged", sig)
+        if cfg.get("kind") != "close":
+            R.count("close_obs:" + sig)          # threaded run (the forced scenarios count theirs in Gated.verdicts)
+        if sig not in sampled and len(sampled) < 6:
+            sampled.add(sig)
+            R.sample({"close_class_observation_not_judged": sig, "what": what, "cfg": cfg})
+    for k in ("pdu_I", "pdu_RR", "pdu_RNR", "ns_wraps", "window_full_events", "rnr_episodes"):
+        R.count("thr_" + k, ts.get(k, 0))
+        R.count("gated_" + k, st.get(k, 0))
+    for src in (st, ts):
+        for k, v in src.items():
+            if k.startswith("max_"):
+                R.max(k, v)
+            else:
+                R.count(k, v)
     R.count("pdu_len_contract", contracts.COUNTS.get("pdu_len_contract", 0) - c0)
 
 
